@@ -1,8 +1,2382 @@
-//! C10 — placeholder, replaced by the real check.
-use crate::core::{CaseOut, Run};
-pub fn run(run: &Run) {
-	run.infra("C10 is not built yet");
+//! C10 — stdlib array, set and higher-order functions match their reference definitions.
+//!
+//! Every case is one call `std.f(args)` with generated arguments.  The expected result comes from a Rust
+//! transcription of the documented definition (std.jsonnet) over a small lazy value model: array elements are
+//! `Result<V, Er>` ("a thunk that evaluates to a value or raises"), so the model also says which elements and which
+//! user-function calls the definition needs.  Each call is observed twice: full manifestation and `std.length` only.
+use std::cmp::Ordering;
+
+use serde_json::Value;
+
+use crate::{
+	core::{CaseOut, Run, Src, Tier, Verdict},
+	jr::{self, Opts, Outcome},
+	json::{self, J},
+};
+
+// ───────────────────────────── value model ─────────────────────────────
+
+/// why a thunk failed: `elem` = an `error "el"` element of the *input* was forced (jrsonnet may legitimately be lazier
+/// or use another order, so such an expectation is not enforced); otherwise a documented argument error or the error
+/// of a user function that the definition must call.
+#[derive(Clone, Debug)]
+pub struct Er {
+	elem: bool,
+	msg: String,
 }
-pub fn replay(_run: &Run, _stage: &str, _tape: Option<&[u16]>, _v: &serde_json::Value) -> Option<CaseOut> {
-	None
+pub type R = Result<V, Er>;
+
+#[derive(Clone, Debug)]
+pub enum V {
+	Null,
+	Bool(bool),
+	Num(f64),
+	Str(String),
+	Arr(Vec<R>),
+	Obj(Vec<(String, V)>),
+}
+
+fn arg(msg: &str) -> Er {
+	Er { elem: false, msg: msg.to_owned() }
+}
+fn el_err() -> R {
+	Err(Er { elem: true, msg: "el".to_owned() })
+}
+fn num(x: f64) -> R {
+	Ok(V::Num(x))
+}
+fn st(s: &str) -> R {
+	Ok(V::Str(s.to_owned()))
+}
+fn arr_of(v: Vec<V>) -> V {
+	V::Arr(v.into_iter().map(Ok).collect())
+}
+fn obj_k(x: f64) -> V {
+	V::Obj(vec![("k".to_owned(), V::Num(x))])
+}
+
+fn tname(v: &V) -> &'static str {
+	match v {
+		V::Null => "null",
+		V::Bool(_) => "boolean",
+		V::Num(_) => "number",
+		V::Str(_) => "string",
+		V::Arr(_) => "array",
+		V::Obj(_) => "object",
+	}
+}
+
+fn num_text(x: f64) -> String {
+	if x == 0.0 && x.is_sign_negative() {
+		return "-0".to_owned();
+	}
+	if x.fract() == 0.0 && x.abs() < 1e15 {
+		format!("{}", x as i64)
+	} else {
+		format!("{x}")
+	}
+}
+
+/// Jsonnet source text of a (lazy) value
+fn lit(r: &R) -> String {
+	match r {
+		Err(e) => format!("error \"{}\"", e.msg),
+		Ok(v) => lit_v(v),
+	}
+}
+fn lit_v(v: &V) -> String {
+	match v {
+		V::Null => "null".to_owned(),
+		V::Bool(b) => b.to_string(),
+		V::Num(x) => num_text(*x),
+		V::Str(s) => {
+			let mut o = String::new();
+			json::write_str(s, &mut o);
+			o
+		}
+		V::Arr(a) => format!("[{}]", a.iter().map(lit).collect::<Vec<_>>().join(", ")),
+		V::Obj(f) => format!(
+			"{{{}}}",
+			f.iter()
+				.map(|(k, v)| {
+					let mut o = String::new();
+					json::write_str(k, &mut o);
+					format!("{o}: {}", lit_v(v))
+				})
+				.collect::<Vec<_>>()
+				.join(", ")
+		),
+	}
+}
+
+/// deep forcing = manifestation
+fn deep(r: &R) -> Result<J, Er> {
+	Ok(match r.clone()? {
+		V::Null => J::Null,
+		V::Bool(b) => J::Bool(b),
+		V::Num(x) => J::Num(x),
+		V::Str(s) => J::Str(s),
+		V::Arr(a) => J::Arr(a.iter().map(deep).collect::<Result<Vec<_>, _>>()?),
+		V::Obj(f) => {
+			let mut f = f;
+			f.sort_by(|a, b| a.0.cmp(&b.0));
+			J::Obj(f.into_iter().map(|(k, v)| Ok((k, deep(&Ok(v))?))).collect::<Result<Vec<_>, Er>>()?)
+		}
+	})
+}
+
+/// equal JSON, with the sign of zero told apart (`-0` and `0` are different JSON texts; this is what makes ties
+/// between equal keys visible)
+fn exact_same(a: &J, b: &J) -> bool {
+	match (a, b) {
+		(J::Num(x), J::Num(y)) => x == y && x.is_sign_negative() == y.is_sign_negative(),
+		(J::Arr(x), J::Arr(y)) => x.len() == y.len() && x.iter().zip(y).all(|(p, q)| exact_same(p, q)),
+		(J::Obj(x), J::Obj(y)) => x.len() == y.len() && x.iter().zip(y).all(|((k1, v1), (k2, v2))| k1 == k2 && exact_same(v1, v2)),
+		(x, y) => x == y,
+	}
+}
+
+/// `==`
+fn equals(a: &V, b: &V) -> Result<bool, Er> {
+	Ok(match (a, b) {
+		(V::Null, V::Null) => true,
+		(V::Bool(x), V::Bool(y)) => x == y,
+		(V::Num(x), V::Num(y)) => x == y,
+		(V::Str(x), V::Str(y)) => x == y,
+		(V::Arr(x), V::Arr(y)) => {
+			if x.len() != y.len() {
+				return Ok(false);
+			}
+			for (p, q) in x.iter().zip(y) {
+				if !equals(&p.clone()?, &q.clone()?)? {
+					return Ok(false);
+				}
+			}
+			true
+		}
+		(V::Obj(x), V::Obj(y)) => {
+			if x.len() != y.len() {
+				return Ok(false);
+			}
+			for (k, v) in x {
+				match y.iter().find(|f| &f.0 == k) {
+					Some((_, w)) => {
+						if !equals(v, w)? {
+							return Ok(false);
+						}
+					}
+					None => return Ok(false),
+				}
+			}
+			true
+		}
+		_ => false,
+	})
+}
+
+/// the ordering behind `<`, `<=`, `>`, `>=` and `std.__compare`: numbers, strings (code points) and arrays
+/// (lexicographic); everything else and mixed types are errors
+fn compare(a: &V, b: &V) -> Result<Ordering, Er> {
+	match (a, b) {
+		(V::Num(x), V::Num(y)) => Ok(x.partial_cmp(y).unwrap_or(Ordering::Equal)),
+		(V::Str(x), V::Str(y)) => Ok(x.cmp(y)),
+		(V::Arr(x), V::Arr(y)) => {
+			for (p, q) in x.iter().zip(y) {
+				let o = compare(&p.clone()?, &q.clone()?)?;
+				if o != Ordering::Equal {
+					return Ok(o);
+				}
+			}
+			Ok(x.len().cmp(&y.len()))
+		}
+		_ if tname(a) != tname(b) => Err(arg("comparison of different types")),
+		_ => Err(arg("values of this type are not comparable")),
+	}
+}
+
+/// std.toString / string coercion of `+`
+fn to_string(v: &V, top: bool) -> Result<String, Er> {
+	Ok(match v {
+		V::Null => "null".to_owned(),
+		V::Bool(b) => b.to_string(),
+		V::Num(x) => num_text(*x),
+		V::Str(s) => {
+			if top {
+				s.clone()
+			} else {
+				let mut o = String::new();
+				json::write_str(s, &mut o);
+				o
+			}
+		}
+		V::Arr(a) => {
+			if a.is_empty() {
+				"[ ]".to_owned()
+			} else {
+				let mut parts = vec![];
+				for e in a {
+					parts.push(to_string(&e.clone()?, false)?);
+				}
+				format!("[{}]", parts.join(", "))
+			}
+		}
+		V::Obj(f) => {
+			if f.is_empty() {
+				"{ }".to_owned()
+			} else {
+				let mut f = f.clone();
+				f.sort_by(|a, b| a.0.cmp(&b.0));
+				let mut parts = vec![];
+				for (k, v) in &f {
+					let mut o = String::new();
+					json::write_str(k, &mut o);
+					parts.push(format!("{o}: {}", to_string(v, false)?));
+				}
+				format!("{{{}}}", parts.join(", "))
+			}
+		}
+	})
+}
+
+/// binary `+`
+fn plus(a: &R, b: &R) -> R {
+	let a = a.clone()?;
+	let b = b.clone()?;
+	match (&a, &b) {
+		(V::Str(_), _) | (_, V::Str(_)) => Ok(V::Str(format!("{}{}", to_string(&a, true)?, to_string(&b, true)?))),
+		(V::Num(x), V::Num(y)) => Ok(V::Num(x + y)),
+		(V::Arr(x), V::Arr(y)) => Ok(V::Arr(x.iter().chain(y.iter()).cloned().collect())),
+		(V::Obj(x), V::Obj(y)) => {
+			let mut out = x.clone();
+			for (k, v) in y {
+				match out.iter_mut().find(|f| &f.0 == k) {
+					Some(f) => f.1 = v.clone(),
+					None => out.push((k.clone(), v.clone())),
+				}
+			}
+			Ok(V::Obj(out))
+		}
+		_ => Err(arg("binary + on these types")),
+	}
+}
+
+fn std_length(v: &V) -> R {
+	match v {
+		V::Str(s) => num(s.chars().count() as f64),
+		V::Arr(a) => num(a.len() as f64),
+		V::Obj(f) => num(f.len() as f64),
+		_ => Err(arg("std.length of this type")),
+	}
+}
+
+// ───────────────────────────── function pool ─────────────────────────────
+
+#[derive(Clone, Copy, PartialEq, Eq, Debug)]
+enum Kind {
+	Num,
+	Str,
+	Bool,
+	Arr,
+	Obj,
+	Mixed,
+}
+
+pub struct Fun {
+	text: &'static str,
+	m: fn(&[R]) -> R,
+	/// element kinds on which the function is total and gives mutually comparable keys (used to build sets)
+	dom: &'static [Kind],
+	/// does the function look at its (element) argument?  (lazy stages prefer functions that do not)
+	forcing: bool,
+}
+
+fn boom() -> Er {
+	arg("boom")
+}
+fn m_id(a: &[R]) -> R {
+	a[0].clone()
+}
+fn m_neg(a: &[R]) -> R {
+	match a[0].clone()? {
+		V::Num(x) => num(-x),
+		_ => Err(arg("unary minus on a non-number")),
+	}
+}
+fn m_mod2(a: &[R]) -> R {
+	match a[0].clone()? {
+		V::Num(x) => num(x % 2.0),
+		_ => Err(arg("% on a non-number")),
+	}
+}
+fn m_const0(_a: &[R]) -> R {
+	num(0.0)
+}
+fn m_wrap(a: &[R]) -> R {
+	Ok(V::Arr(vec![a[0].clone()]))
+}
+fn m_str(a: &[R]) -> R {
+	Ok(V::Str(to_string(&a[0].clone()?, true)?))
+}
+fn m_k(a: &[R]) -> R {
+	match a[0].clone()? {
+		V::Obj(f) => f.iter().find(|f| f.0 == "k").map(|f| f.1.clone()).ok_or_else(|| arg("no field k")),
+		_ => Err(arg("field access on a non-object")),
+	}
+}
+fn m_len(a: &[R]) -> R {
+	std_length(&a[0].clone()?)
+}
+fn m_partial1(a: &[R]) -> R {
+	let v = a[0].clone()?;
+	if equals(&v, &V::Num(1.0))? {
+		Err(boom())
+	} else {
+		Ok(v)
+	}
+}
+fn m_typechg(a: &[R]) -> R {
+	let v = a[0].clone()?;
+	match v {
+		V::Num(x) if x % 2.0 == 0.0 => Ok(v),
+		_ => Ok(V::Str(to_string(&v, true)?)),
+	}
+}
+fn m_bad_arity(_a: &[R]) -> R {
+	Err(arg("function called with the wrong number of arguments"))
+}
+
+const ALLK: &[Kind] = &[Kind::Num, Kind::Str, Kind::Bool, Kind::Arr, Kind::Obj, Kind::Mixed];
+const ORD: &[Kind] = &[Kind::Num, Kind::Str, Kind::Arr];
+
+/// one-argument functions used as keyF / map functions (index 0 = simplest)
+static KEYS: &[Fun] = &[
+	Fun { text: "function(x) x", m: m_id, dom: ORD, forcing: true },
+	Fun { text: "function(x) -x", m: m_neg, dom: &[Kind::Num], forcing: true },
+	Fun { text: "function(x) x % 2", m: m_mod2, dom: &[Kind::Num], forcing: true },
+	Fun { text: "function(x) 0", m: m_const0, dom: ALLK, forcing: false },
+	Fun { text: "function(x) [x]", m: m_wrap, dom: ORD, forcing: false },
+	Fun { text: "function(x) \"\" + x", m: m_str, dom: ALLK, forcing: true },
+	Fun { text: "function(x) x.k", m: m_k, dom: &[Kind::Obj], forcing: true },
+	Fun { text: "std.length", m: m_len, dom: &[Kind::Str, Kind::Arr, Kind::Obj], forcing: true },
+	Fun { text: "function(x, y=0) x", m: m_id, dom: ORD, forcing: true },
+	Fun { text: "function(x) if x == 1 then error \"boom\" else x", m: m_partial1, dom: ORD, forcing: true },
+	Fun { text: "function(x) if std.isNumber(x) && x % 2 == 0 then x else std.toString(x)", m: m_typechg, dom: &[Kind::Str, Kind::Bool, Kind::Obj], forcing: true },
+	Fun { text: "function(x, y) x", m: m_bad_arity, dom: &[], forcing: false },
+	Fun { text: "function() 0", m: m_bad_arity, dom: &[], forcing: false },
+];
+
+fn m_eq1(a: &[R]) -> R {
+	Ok(V::Bool(equals(&a[0].clone()?, &V::Num(1.0))?))
+}
+fn m_isnum(a: &[R]) -> R {
+	Ok(V::Bool(matches!(a[0].clone()?, V::Num(_))))
+}
+fn m_isstr(a: &[R]) -> R {
+	Ok(V::Bool(matches!(a[0].clone()?, V::Str(_))))
+}
+fn m_true(_a: &[R]) -> R {
+	Ok(V::Bool(true))
+}
+fn m_false(_a: &[R]) -> R {
+	Ok(V::Bool(false))
+}
+fn m_gt0(a: &[R]) -> R {
+	Ok(V::Bool(compare(&a[0].clone()?, &V::Num(0.0))? == Ordering::Greater))
+}
+fn m_yes2(a: &[R]) -> R {
+	if equals(&a[0].clone()?, &V::Num(2.0))? {
+		st("yes")
+	} else {
+		Ok(V::Bool(true))
+	}
+}
+fn m_one(_a: &[R]) -> R {
+	num(1.0)
+}
+fn m_null(_a: &[R]) -> R {
+	Ok(V::Null)
+}
+fn m_boom1_true(a: &[R]) -> R {
+	if equals(&a[0].clone()?, &V::Num(1.0))? {
+		Err(boom())
+	} else {
+		Ok(V::Bool(true))
+	}
+}
+fn m_ne_a(a: &[R]) -> R {
+	Ok(V::Bool(!equals(&a[0].clone()?, &V::Str("a".into()))?))
+}
+
+/// predicates (index 0 = simplest)
+static PREDS: &[Fun] = &[
+	Fun { text: "function(x) true", m: m_true, dom: ALLK, forcing: false },
+	Fun { text: "function(x) false", m: m_false, dom: ALLK, forcing: false },
+	Fun { text: "function(x) x == 1", m: m_eq1, dom: ALLK, forcing: true },
+	Fun { text: "function(x) x != \"a\"", m: m_ne_a, dom: ALLK, forcing: true },
+	Fun { text: "function(x) std.isNumber(x)", m: m_isnum, dom: ALLK, forcing: true },
+	Fun { text: "function(x) std.isString(x)", m: m_isstr, dom: ALLK, forcing: true },
+	Fun { text: "function(x) x > 0", m: m_gt0, dom: &[Kind::Num], forcing: true },
+	Fun { text: "function(x) x", m: m_id, dom: &[Kind::Bool], forcing: true },
+	Fun { text: "function(x) if x == 2 then \"yes\" else true", m: m_yes2, dom: ALLK, forcing: true },
+	Fun { text: "function(x) 1", m: m_one, dom: ALLK, forcing: false },
+	Fun { text: "function(x) null", m: m_null, dom: ALLK, forcing: false },
+	Fun { text: "function(x) if x == 1 then error \"boom\" else true", m: m_boom1_true, dom: ALLK, forcing: true },
+	Fun { text: "function(x, y) true", m: m_bad_arity, dom: &[], forcing: false },
+];
+
+fn m2_pair(a: &[R]) -> R {
+	Ok(V::Arr(vec![a[0].clone(), a[1].clone()]))
+}
+fn m2_plus(a: &[R]) -> R {
+	plus(&a[0], &a[1])
+}
+fn m2_cat(a: &[R]) -> R {
+	// "<" + p + "," + q + ">"
+	let s = plus(&st("<"), &a[0]);
+	let s = plus(&s, &st(","));
+	let s = plus(&s, &a[1]);
+	plus(&s, &st(">"))
+}
+fn m2_fst(a: &[R]) -> R {
+	a[0].clone()
+}
+fn m2_snd(a: &[R]) -> R {
+	a[1].clone()
+}
+fn m2_boom(a: &[R]) -> R {
+	let p = a[0].clone()?;
+	if equals(&p, &V::Num(1.0))? {
+		return Err(boom());
+	}
+	let q = a[1].clone()?;
+	if equals(&q, &V::Num(1.0))? {
+		return Err(boom());
+	}
+	Ok(V::Arr(vec![Ok(p), Ok(q)]))
+}
+
+/// two-argument functions (folds, mapWithIndex)
+static FOLDS: &[Fun] = &[
+	Fun { text: "function(p, q) [p, q]", m: m2_pair, dom: ALLK, forcing: false },
+	Fun { text: "function(p, q) p + q", m: m2_plus, dom: ALLK, forcing: true },
+	Fun { text: "function(p, q) \"<\" + p + \",\" + q + \">\"", m: m2_cat, dom: ALLK, forcing: true },
+	Fun { text: "function(p, q) p", m: m2_fst, dom: ALLK, forcing: false },
+	Fun { text: "function(p, q) q", m: m2_snd, dom: ALLK, forcing: false },
+	Fun { text: "function(p, q) 0", m: m_const0, dom: ALLK, forcing: false },
+	Fun { text: "function(p, q) if p == 1 || q == 1 then error \"boom\" else [p, q]", m: m2_boom, dom: ALLK, forcing: true },
+	Fun { text: "function(p) p", m: m_bad_arity, dom: &[], forcing: false },
+	Fun { text: "function(p, q, r) p", m: m_bad_arity, dom: &[], forcing: false },
+];
+
+fn m_dup(a: &[R]) -> R {
+	Ok(V::Arr(vec![a[0].clone(), a[0].clone()]))
+}
+fn m_empty_arr(_a: &[R]) -> R {
+	Ok(V::Arr(vec![]))
+}
+fn m_null_on1(a: &[R]) -> R {
+	let v = a[0].clone()?;
+	if equals(&v, &V::Num(1.0))? {
+		Ok(V::Null)
+	} else {
+		Ok(V::Arr(vec![Ok(v)]))
+	}
+}
+fn m_seven_on1(a: &[R]) -> R {
+	let v = a[0].clone()?;
+	if equals(&v, &V::Num(1.0))? {
+		num(7.0)
+	} else {
+		Ok(V::Arr(vec![Ok(v)]))
+	}
+}
+fn m_boom_on1_wrap(a: &[R]) -> R {
+	let v = a[0].clone()?;
+	if equals(&v, &V::Num(1.0))? {
+		Err(boom())
+	} else {
+		Ok(V::Arr(vec![Ok(v)]))
+	}
+}
+/// functions for std.flatMap over arrays
+static FLATS: &[Fun] = &[
+	Fun { text: "function(x) [x]", m: m_wrap, dom: ALLK, forcing: false },
+	Fun { text: "function(x) [x, x]", m: m_dup, dom: ALLK, forcing: false },
+	Fun { text: "function(x) []", m: m_empty_arr, dom: ALLK, forcing: false },
+	Fun { text: "function(x) x", m: m_id, dom: &[Kind::Arr], forcing: true },
+	Fun { text: "function(x) if x == 1 then null else [x]", m: m_null_on1, dom: ALLK, forcing: true },
+	Fun { text: "function(x) if x == 1 then 7 else [x]", m: m_seven_on1, dom: ALLK, forcing: true },
+	Fun { text: "function(x) if x == 1 then error \"boom\" else [x]", m: m_boom_on1_wrap, dom: ALLK, forcing: true },
+	Fun { text: "function(x, y) [x]", m: m_bad_arity, dom: &[], forcing: false },
+];
+
+fn m_cc(a: &[R]) -> R {
+	plus(&a[0], &a[0])
+}
+fn m_empty_str(_a: &[R]) -> R {
+	st("")
+}
+fn m_one_on_a(a: &[R]) -> R {
+	let v = a[0].clone()?;
+	if equals(&v, &V::Str("a".into()))? {
+		num(1.0)
+	} else {
+		Ok(v)
+	}
+}
+fn m_boom_on_a(a: &[R]) -> R {
+	let v = a[0].clone()?;
+	if equals(&v, &V::Str("a".into()))? {
+		Err(boom())
+	} else {
+		Ok(v)
+	}
+}
+/// functions for std.flatMap over strings
+static FLATS_STR: &[Fun] = &[
+	Fun { text: "function(c) c", m: m_id, dom: ALLK, forcing: true },
+	Fun { text: "function(c) c + c", m: m_cc, dom: ALLK, forcing: true },
+	Fun { text: "function(c) \"\"", m: m_empty_str, dom: ALLK, forcing: false },
+	Fun { text: "function(c) if c == \"a\" then 1 else c", m: m_one_on_a, dom: ALLK, forcing: true },
+	Fun { text: "function(c) [c]", m: m_wrap, dom: ALLK, forcing: false },
+	Fun { text: "function(c) if c == \"a\" then error \"boom\" else c", m: m_boom_on_a, dom: ALLK, forcing: true },
+];
+
+fn m_times2(a: &[R]) -> R {
+	match a[0].clone()? {
+		V::Num(x) => num(x * 2.0),
+		_ => Err(arg("* on a non-number")),
+	}
+}
+fn m_s_plus(a: &[R]) -> R {
+	plus(&st("s"), &a[0])
+}
+fn m_boom_always(_a: &[R]) -> R {
+	Err(boom())
+}
+/// functions for std.makeArray
+static MAKERS: &[Fun] = &[
+	Fun { text: "function(i) i", m: m_id, dom: ALLK, forcing: true },
+	Fun { text: "function(i) i * 2", m: m_times2, dom: ALLK, forcing: true },
+	Fun { text: "function(i) [i]", m: m_wrap, dom: ALLK, forcing: false },
+	Fun { text: "function(i) \"s\" + i", m: m_s_plus, dom: ALLK, forcing: true },
+	Fun { text: "function(i) 0", m: m_const0, dom: ALLK, forcing: false },
+	Fun { text: "function(i) if i == 1 then error \"boom\" else i", m: m_partial1, dom: ALLK, forcing: true },
+	Fun { text: "function(i) error \"boom\"", m: m_boom_always, dom: ALLK, forcing: true },
+	Fun { text: "function(i, j) i", m: m_bad_arity, dom: &[], forcing: false },
+];
+
+fn ftext(f: &Fun) -> String {
+	if f.text.starts_with("std.") {
+		f.text.to_owned()
+	} else {
+		format!("({})", f.text)
+	}
+}
+fn key(f: Option<&Fun>, x: &R) -> R {
+	match f {
+		None => x.clone(),
+		Some(f) => (f.m)(std::slice::from_ref(x)),
+	}
+}
+
+// ───────────────────────────── reference definitions ─────────────────────────────
+
+/// expected result of a call: a (lazy) result, or "the documentation leaves this open" (only crashes are failures)
+pub enum M {
+	Is(R),
+	Open(&'static str),
+}
+macro_rules! t {
+	($e:expr) => {
+		match $e {
+			Ok(v) => v,
+			Err(e) => return M::Is(Err(e)),
+		}
+	};
+}
+fn is_arr(v: Vec<R>) -> M {
+	M::Is(Ok(V::Arr(v)))
+}
+
+/// sort(arr, keyF): stable, keys compared with `<`.  With fewer than two elements nothing is compared (and keyF is not
+/// called).  Which pairs a sorting routine compares is not fixed: when *no* pair of keys is incomparable the result is
+/// the stable sort; when the "comparable" relation does not even connect the keys (mixed types, booleans, ...) every
+/// routine must hit an error; in between nothing is demanded.
+fn m_sort(a: &[R], f: Option<&Fun>) -> M {
+	if a.len() <= 1 {
+		return is_arr(a.to_vec());
+	}
+	let mut keys = vec![];
+	let mut first_err: Option<Er> = None;
+	for x in a {
+		match key(f, x) {
+			Ok(k) => keys.push(k),
+			Err(e) => {
+				// every key is needed; an error of the key function (or documented type error) wins over an input thunk
+				match &first_err {
+					Some(p) if !p.elem || e.elem => {}
+					_ => first_err = Some(e),
+				}
+			}
+		}
+	}
+	if let Some(e) = first_err {
+		return M::Is(Err(e));
+	}
+	let n = keys.len();
+	let mut ok = vec![vec![true; n]; n];
+	let mut any_bad = false;
+	for i in 0..n {
+		for j in (i + 1)..n {
+			match compare(&keys[i], &keys[j]) {
+				Ok(_) => {}
+				Err(e) => {
+					if e.elem {
+						return M::Open("sort key contains an erroring element");
+					}
+					ok[i][j] = false;
+					ok[j][i] = false;
+					any_bad = true;
+				}
+			}
+		}
+	}
+	if any_bad {
+		// connected?
+		let mut seen = vec![false; n];
+		let mut stack = vec![0usize];
+		seen[0] = true;
+		while let Some(i) = stack.pop() {
+			for j in 0..n {
+				if i != j && ok[i][j] && !seen[j] {
+					seen[j] = true;
+					stack.push(j);
+				}
+			}
+		}
+		return if seen.iter().all(|s| *s) { M::Open("only some pairs of sort keys are incomparable") } else { M::Is(Err(arg("sort keys are not comparable"))) };
+	}
+	// stable insertion sort on `<`
+	let mut idx: Vec<usize> = (0..n).collect();
+	for i in 1..n {
+		let mut j = i;
+		while j > 0 && compare(&keys[idx[j]], &keys[idx[j - 1]]).unwrap() == Ordering::Less {
+			idx.swap(j, j - 1);
+			j -= 1;
+		}
+	}
+	is_arr(idx.into_iter().map(|i| a[i].clone()).collect())
+}
+
+/// uniq(arr, keyF) = foldl(f, arr, []) with f(a, b) = if a == [] then [b] else if keyF(a[last]) == keyF(b) then a else a + [b]
+fn m_uniq(a: &[R], f: Option<&Fun>) -> M {
+	let mut acc: Vec<R> = vec![];
+	for b in a {
+		if acc.is_empty() {
+			acc.push(b.clone());
+			continue;
+		}
+		let ka = t!(key(f, acc.last().unwrap()));
+		let kb = t!(key(f, b));
+		if !t!(equals(&ka, &kb)) {
+			acc.push(b.clone());
+		}
+	}
+	is_arr(acc)
+}
+
+fn m_set(a: &[R], f: Option<&Fun>) -> M {
+	match m_sort(a, f) {
+		M::Is(Ok(V::Arr(s))) => m_uniq(&s, f),
+		other => other,
+	}
+}
+
+fn m_set_union(a: &[R], b: &[R], f: Option<&Fun>) -> R {
+	let (mut i, mut j) = (0, 0);
+	let mut acc = vec![];
+	loop {
+		if i >= a.len() {
+			acc.extend(b[j..].iter().cloned());
+			break;
+		}
+		if j >= b.len() {
+			acc.extend(a[i..].iter().cloned());
+			break;
+		}
+		let ak = key(f, &a[i])?;
+		let bk = key(f, &b[j])?;
+		if equals(&ak, &bk)? {
+			acc.push(a[i].clone());
+			i += 1;
+			j += 1;
+		} else if compare(&ak, &bk)? == Ordering::Less {
+			acc.push(a[i].clone());
+			i += 1;
+		} else {
+			acc.push(b[j].clone());
+			j += 1;
+		}
+	}
+	Ok(V::Arr(acc))
+}
+fn m_set_inter(a: &[R], b: &[R], f: Option<&Fun>) -> R {
+	let (mut i, mut j) = (0, 0);
+	let mut acc = vec![];
+	while i < a.len() && j < b.len() {
+		let ak = key(f, &a[i])?;
+		let bk = key(f, &b[j])?;
+		if equals(&ak, &bk)? {
+			acc.push(a[i].clone());
+			i += 1;
+			j += 1;
+		} else if compare(&ak, &bk)? == Ordering::Less {
+			i += 1;
+		} else {
+			j += 1;
+		}
+	}
+	Ok(V::Arr(acc))
+}
+fn m_set_diff(a: &[R], b: &[R], f: Option<&Fun>) -> R {
+	let (mut i, mut j) = (0, 0);
+	let mut acc = vec![];
+	loop {
+		if i >= a.len() {
+			break;
+		}
+		if j >= b.len() {
+			acc.extend(a[i..].iter().cloned());
+			break;
+		}
+		let ak = key(f, &a[i])?;
+		let bk = key(f, &b[j])?;
+		if equals(&ak, &bk)? {
+			i += 1;
+			j += 1;
+		} else if compare(&ak, &bk)? == Ordering::Less {
+			acc.push(a[i].clone());
+			i += 1;
+		} else {
+			j += 1;
+		}
+	}
+	Ok(V::Arr(acc))
+}
+fn m_set_member(x: &R, a: &[R], f: Option<&Fun>) -> R {
+	match m_set_inter(std::slice::from_ref(x), a, f)? {
+		V::Arr(v) => Ok(V::Bool(!v.is_empty())),
+		_ => unreachable!(),
+	}
+}
+
+/// find(value, arr) = indexes i with arr[i] == value (every element is compared)
+fn m_find(x: &V, a: &[R]) -> Result<Vec<usize>, Er> {
+	let mut out = vec![];
+	for (i, e) in a.iter().enumerate() {
+		if equals(&e.clone()?, x)? {
+			out.push(i);
+		}
+	}
+	Ok(out)
+}
+/// removeAt(arr, at) = [arr[i] for i in range(0, len - 1) if i != at]
+fn m_remove_at(a: &[R], at: i64) -> Vec<R> {
+	a.iter().enumerate().filter(|(i, _)| *i as i64 != at).map(|(_, e)| e.clone()).collect()
+}
+/// contains(arr, elem) = any([e == elem for e in arr]) (stops at the first hit)
+fn m_contains(a: &[R], x: &V) -> R {
+	for e in a {
+		if equals(&e.clone()?, x)? {
+			return Ok(V::Bool(true));
+		}
+	}
+	Ok(V::Bool(false))
+}
+
+/// flattenArrays(arrs) = foldl(function(a, b) a + b, arrs, [])
+fn m_flatten_arrays(arrs: &[R]) -> M {
+	let mut acc: Vec<R> = vec![];
+	for e in arrs {
+		match t!(e.clone()) {
+			V::Arr(v) => acc.extend(v),
+			V::Str(_) => return M::Open("string element in flattenArrays (array + string is string concatenation in the definition)"),
+			_ => return M::Is(Err(arg("flattenArrays element is not an array"))),
+		}
+	}
+	is_arr(acc)
+}
+fn m_flatten_deep(v: &R, out: &mut Vec<R>) -> Result<(), Er> {
+	match v.clone()? {
+		V::Arr(a) => {
+			for e in &a {
+				m_flatten_deep(e, out)?;
+			}
+		}
+		_ => out.push(v.clone()),
+	}
+	Ok(())
+}
+
+fn m_foldl(f: &Fun, items: &[R], init: R) -> R {
+	let mut run = init;
+	for it in items {
+		run = Ok((f.m)(&[run, it.clone()])?);
+	}
+	run
+}
+fn m_foldr(f: &Fun, items: &[R], init: R) -> R {
+	let mut run = init;
+	for it in items.iter().rev() {
+		run = Ok((f.m)(&[it.clone(), run])?);
+	}
+	run
+}
+fn chars_of(s: &str) -> Vec<R> {
+	s.chars().map(|c| Ok(V::Str(c.to_string()))).collect()
+}
+
+fn m_map(f: &Fun, a: &[R]) -> Vec<R> {
+	a.iter().map(|e| (f.m)(std::slice::from_ref(e))).collect()
+}
+/// filter: the predicate is called on every element and must return a boolean
+fn m_filter(f: &Fun, a: &[R]) -> Result<Vec<R>, Er> {
+	let mut out = vec![];
+	for e in a {
+		match (f.m)(std::slice::from_ref(e))? {
+			V::Bool(true) => out.push(e.clone()),
+			V::Bool(false) => {}
+			_ => return Err(arg("filter function must return a boolean")),
+		}
+	}
+	Ok(out)
+}
+
+/// join(sep, arr): null skipped, separator only between emitted elements, type errors
+fn m_join(sep: &V, a: &[R]) -> R {
+	let is_str = match sep {
+		V::Str(_) => true,
+		V::Arr(_) => false,
+		_ => return Err(arg("join first parameter should be string or array")),
+	};
+	let mut first = true;
+	let mut s = String::new();
+	let mut v: Vec<R> = vec![];
+	for e in a {
+		match (e.clone()?, sep) {
+			(V::Null, _) => {}
+			(V::Str(x), V::Str(sp)) => {
+				if !first {
+					s.push_str(sp);
+				}
+				first = false;
+				s.push_str(&x);
+			}
+			(V::Arr(x), V::Arr(sp)) => {
+				if !first {
+					v.extend(sp.iter().cloned());
+				}
+				first = false;
+				v.extend(x);
+			}
+			_ => return Err(arg("join element has the wrong type")),
+		}
+	}
+	Ok(if is_str { V::Str(s) } else { V::Arr(v) })
+}
+fn m_deep_join(x: &R) -> R {
+	match x.clone()? {
+		V::Str(s) => Ok(V::Str(s)),
+		V::Arr(a) => {
+			let mut parts = vec![];
+			for e in &a {
+				parts.push(m_deep_join(e));
+			}
+			// join('', [...]) looks at the elements in order
+			m_join(&V::Str(String::new()), &parts)
+		}
+		_ => Err(arg("deepJoin: expected string or array")),
+	}
+}
+
+/// any / all with the documented short cut; a non-boolean after the deciding element is left open
+fn m_any_all(a: &[R], all: bool) -> M {
+	for (i, e) in a.iter().enumerate() {
+		match t!(e.clone()) {
+			V::Bool(b) => {
+				if b != all {
+					let later_bad = a[i + 1..].iter().any(|x| !matches!(x, Ok(V::Bool(_))));
+					return if later_bad { M::Open("non-boolean after the deciding element of any/all") } else { M::Is(Ok(V::Bool(b))) };
+				}
+			}
+			_ => return M::Is(Err(arg("any/all element is not a boolean"))),
+		}
+	}
+	M::Is(Ok(V::Bool(all)))
+}
+
+/// sum = foldl(a + b, arr, 0): only numeric elements are meaningful; strings would concatenate (left open)
+fn m_sum(a: &[R]) -> M {
+	let mut acc = 0.0f64;
+	let mut open = false;
+	for e in a {
+		match t!(e.clone()) {
+			V::Num(x) => acc += x,
+			V::Str(_) => open = true,
+			_ => return if open { M::Open("string element in sum/avg") } else { M::Is(Err(arg("sum element is not a number"))) },
+		}
+	}
+	if open {
+		return M::Open("string element in sum/avg");
+	}
+	M::Is(num(acc))
+}
+
+/// minArray / maxArray = foldl(minFn, arr, arr[0]) with std.__compare on keys; the first extreme element wins
+fn m_top(a: &[R], f: Option<&Fun>, on_empty: Option<&R>, max: bool) -> M {
+	if a.is_empty() {
+		return M::Is(match on_empty {
+			Some(r) => r.clone(),
+			None => Err(arg("expected at least one element")),
+		});
+	}
+	let mut cur = a[0].clone();
+	for b in a {
+		let ka = t!(key(f, &cur));
+		let kb = t!(key(f, b));
+		match compare(&ka, &kb) {
+			Err(e) => {
+				if a.len() == 1 && !e.elem {
+					return M::Open("minArray/maxArray of one element of a type without an order");
+				}
+				return M::Is(Err(e));
+			}
+			Ok(o) => {
+				if (!max && o == Ordering::Greater) || (max && o == Ordering::Less) {
+					cur = b.clone();
+				}
+			}
+		}
+	}
+	M::Is(cur)
+}
+
+/// slice(indexable, index, end, step) with Python-style negative index/end
+fn m_slice(items: &[R], index: Option<i64>, end: Option<i64>, step: Option<i64>) -> Result<Vec<R>, Er> {
+	let len = items.len() as i64;
+	let index = match index {
+		None => 0,
+		Some(i) if i < 0 => (len + i).max(0),
+		Some(i) => i,
+	};
+	let end = match end {
+		None => len,
+		Some(e) if e < 0 => len + e,
+		Some(e) => e,
+	};
+	let step = step.unwrap_or(1);
+	if step <= 0 {
+		return Err(arg("slice step must be positive"));
+	}
+	let mut out = vec![];
+	let mut cur = index;
+	while cur < end && cur < len {
+		out.push(items[cur as usize].clone());
+		cur += step;
+	}
+	Ok(out)
+}
+
+// ───────────────────────────── generators ─────────────────────────────
+
+#[derive(Clone, Copy)]
+pub struct Cfg {
+	/// thorough tier: arrays of up to 40 elements
+	long: bool,
+	/// inputs may contain `error "el"` elements and functions that ignore their argument are preferred
+	lazy: bool,
+}
+
+pub struct Q {
+	class: &'static str,
+	expr: String,
+	model: M,
+	nontrivial: bool,
+}
+
+const NUMS: [f64; 6] = [0.0, -0.0, 1.0, 2.0, -1.0, 1.5];
+const STRS: [&str; 4] = ["", "a", "b", "ab"];
+
+fn alphabet(kind: Kind) -> Vec<V> {
+	match kind {
+		Kind::Num => NUMS.iter().map(|x| V::Num(*x)).collect(),
+		Kind::Str => STRS.iter().map(|s| V::Str((*s).to_owned())).collect(),
+		Kind::Bool => vec![V::Bool(true), V::Bool(false), V::Null],
+		Kind::Arr => vec![arr_of(vec![]), arr_of(vec![V::Num(1.0)]), arr_of(vec![V::Num(1.0), V::Num(2.0)]), arr_of(vec![V::Num(0.0)]), arr_of(vec![V::Num(-0.0)])],
+		Kind::Obj => vec![obj_k(1.0), obj_k(2.0)],
+		Kind::Mixed => {
+			let mut v = vec![];
+			for k in [Kind::Num, Kind::Str, Kind::Bool, Kind::Arr, Kind::Obj] {
+				v.extend(alphabet(k));
+			}
+			v
+		}
+	}
+}
+fn gen_kind(src: &mut Src) -> Kind {
+	[Kind::Num, Kind::Str, Kind::Mixed, Kind::Arr, Kind::Bool, Kind::Obj][src.weighted(&[32, 20, 30, 7, 5, 6])]
+}
+fn gen_len(src: &mut Src, cfg: Cfg) -> usize {
+	if cfg.long && src.chance(1, 3) {
+		src.range(9, 40) as usize
+	} else {
+		src.range(0, 8) as usize
+	}
+}
+fn gen_val(src: &mut Src, kind: Kind) -> V {
+	let a = alphabet(kind);
+	a[src.below(a.len())].clone()
+}
+fn gen_arr_kind(src: &mut Src, cfg: Cfg, kind: Kind, len: usize) -> Vec<R> {
+	let a = alphabet(kind);
+	// a narrow window of the alphabet forces duplicates and ties
+	let (off, width) = if src.chance(1, 2) { (src.below(a.len()), 2 + src.below(2)) } else { (0, a.len()) };
+	(0..len)
+		.map(|_| {
+			if cfg.lazy && src.chance(1, 5) {
+				return el_err();
+			}
+			Ok(a[(off + src.below(width)) % a.len()].clone())
+		})
+		.collect()
+}
+fn gen_arr(src: &mut Src, cfg: Cfg) -> Vec<R> {
+	let kind = gen_kind(src);
+	let len = gen_len(src, cfg);
+	gen_arr_kind(src, cfg, kind, len)
+}
+fn arr_lit(a: &[R]) -> String {
+	format!("[{}]", a.iter().map(lit).collect::<Vec<_>>().join(", "))
+}
+fn pick_fun<'a>(src: &mut Src, cfg: Cfg, pool: &'a [Fun]) -> &'a Fun {
+	if cfg.lazy && src.chance(2, 3) {
+		let lazy: Vec<&Fun> = pool.iter().filter(|f| !f.forcing && !f.dom.is_empty()).collect();
+		if !lazy.is_empty() {
+			return lazy[src.below(lazy.len())];
+		}
+	}
+	&pool[src.below(pool.len())]
+}
+/// optional key function: None = argument omitted
+fn pick_key(src: &mut Src, cfg: Cfg) -> Option<&'static Fun> {
+	if src.chance(3, 4) {
+		Some(pick_fun(src, cfg, KEYS))
+	} else {
+		None
+	}
+}
+fn has_tie(a: &[R], f: Option<&Fun>) -> bool {
+	let keys: Vec<V> = a.iter().filter_map(|x| key(f, x).ok()).collect();
+	for i in 0..keys.len() {
+		for j in (i + 1)..keys.len() {
+			if equals(&keys[i], &keys[j]).unwrap_or(false) {
+				return true;
+			}
+		}
+	}
+	false
+}
+/// a value of a type that no array/string parameter accepts
+fn wrong_arg(src: &mut Src) -> &'static str {
+	["5", "true", "null"][src.below(3)]
+}
+const WRONG: usize = 16;
+
+/// A function of the wrong arity violates the documented expectation about `func`; whether that is noticed before the
+/// first call is not specified.  Demanded: an error whenever the definition must call it right away.
+fn arity_open(fs: &[Option<&Fun>], m: M) -> M {
+	let bad = fs.iter().any(|f| matches!(f, Some(f) if f.dom.is_empty()));
+	match m {
+		M::Is(Ok(_)) if bad => M::Open("wrong-arity function that the definition does not call (or calls lazily)"),
+		m => m,
+	}
+}
+
+fn call(name: &str, args: &[String]) -> String {
+	format!("std.{name}({})", args.join(", "))
+}
+/// `f(arr)`, `f(arr, keyF)`, `f(arr, keyF=keyF)`
+fn with_key(src: &mut Src, name: &str, mut args: Vec<String>, f: Option<&Fun>) -> String {
+	if let Some(f) = f {
+		if src.chance(1, 3) {
+			args.push(format!("keyF={}", ftext(f)));
+		} else {
+			args.push(ftext(f));
+		}
+	}
+	call(name, &args)
+}
+
+fn q_sort(src: &mut Src, cfg: Cfg) -> Q {
+	let a = gen_arr(src, cfg);
+	let f = pick_key(src, cfg);
+	if src.chance(1, WRONG) {
+		let w = wrong_arg(src);
+		return Q { class: "sort", expr: with_key(src, "sort", vec![w.to_owned()], f), model: M::Is(Err(arg("not an array"))), nontrivial: true };
+	}
+	Q { class: "sort", expr: with_key(src, "sort", vec![arr_lit(&a)], f), model: arity_open(&[f], m_sort(&a, f)), nontrivial: a.len() >= 2 && has_tie(&a, f) }
+}
+fn q_uniq(src: &mut Src, cfg: Cfg) -> Q {
+	let mut a = gen_arr(src, cfg);
+	let f = pick_key(src, cfg);
+	// uniq is meant for sorted input: sort half of the inputs (when possible)
+	if src.chance(1, 2) {
+		if let M::Is(Ok(V::Arr(s))) = m_sort(&a, f) {
+			a = s;
+		}
+	}
+	if src.chance(1, WRONG) {
+		let w = wrong_arg(src);
+		return Q { class: "uniq", expr: with_key(src, "uniq", vec![w.to_owned()], f), model: M::Is(Err(arg("not an array"))), nontrivial: true };
+	}
+	Q { class: "uniq", expr: with_key(src, "uniq", vec![arr_lit(&a)], f), model: arity_open(&[f], m_uniq(&a, f)), nontrivial: a.len() >= 2 && has_tie(&a, f) }
+}
+fn q_set(src: &mut Src, cfg: Cfg) -> Q {
+	let a = gen_arr(src, cfg);
+	let f = pick_key(src, cfg);
+	if src.chance(1, WRONG) {
+		let w = wrong_arg(src);
+		return Q { class: "set", expr: with_key(src, "set", vec![w.to_owned()], f), model: M::Is(Err(arg("not an array"))), nontrivial: true };
+	}
+	Q { class: "set", expr: with_key(src, "set", vec![arr_lit(&a)], f), model: arity_open(&[f], m_set(&a, f)), nontrivial: a.len() >= 2 && has_tie(&a, f) }
+}
+
+/// a genuine set under `f`, built by the reference `set`; every key is defined and of an ordered type
+fn gen_set(src: &mut Src, cfg: Cfg, f: Option<&Fun>, kind: Kind) -> Vec<R> {
+	for _ in 0..4 {
+		let len = gen_len(src, cfg);
+		let a = gen_arr_kind(src, Cfg { lazy: false, ..cfg }, kind, len);
+		if let M::Is(Ok(V::Arr(s))) = m_set(&a, f) {
+			let fine = s.iter().all(|e| matches!(key(f, e), Ok(V::Num(_) | V::Str(_) | V::Arr(_))));
+			if fine {
+				return s;
+			}
+		}
+	}
+	vec![]
+}
+/// key function usable for sets, and an element kind on which it is defined
+fn gen_set_key(src: &mut Src) -> (Option<&'static Fun>, Kind) {
+	if src.chance(1, 4) {
+		return (None, ORD[src.below(ORD.len())]);
+	}
+	let usable: Vec<&Fun> = KEYS.iter().filter(|f| !f.dom.is_empty()).collect();
+	let f = usable[src.below(usable.len())];
+	(Some(f), f.dom[src.below(f.dom.len())])
+}
+fn other_kind(src: &mut Src, f: Option<&Fun>, kind: Kind) -> Kind {
+	// rarely the second operand has keys of another type
+	if src.chance(1, 10) {
+		let dom = f.map(|f| f.dom).unwrap_or(ORD);
+		dom[src.below(dom.len())]
+	} else {
+		kind
+	}
+}
+fn q_set_bin(src: &mut Src, cfg: Cfg, name: &'static str) -> Q {
+	let (f, kind) = gen_set_key(src);
+	let a = gen_set(src, cfg, f, kind);
+	let k2 = other_kind(src, f, kind);
+	let b = gen_set(src, cfg, f, k2);
+	if src.chance(1, WRONG) {
+		let w = wrong_arg(src).to_owned();
+		let args = if src.chance(1, 2) { vec![w, arr_lit(&b)] } else { vec![arr_lit(&a), w] };
+		return Q { class: name, expr: with_key(src, name, args, f), model: M::Is(Err(arg("not an array"))), nontrivial: true };
+	}
+	let model = match name {
+		"setUnion" => m_set_union(&a, &b, f),
+		"setInter" => m_set_inter(&a, &b, f),
+		_ => m_set_diff(&a, &b, f),
+	};
+	Q { class: name, expr: with_key(src, name, vec![arr_lit(&a), arr_lit(&b)], f), model: M::Is(model), nontrivial: !a.is_empty() || !b.is_empty() }
+}
+fn q_set_union(src: &mut Src, cfg: Cfg) -> Q {
+	q_set_bin(src, cfg, "setUnion")
+}
+fn q_set_inter(src: &mut Src, cfg: Cfg) -> Q {
+	q_set_bin(src, cfg, "setInter")
+}
+fn q_set_diff(src: &mut Src, cfg: Cfg) -> Q {
+	q_set_bin(src, cfg, "setDiff")
+}
+fn q_set_member(src: &mut Src, cfg: Cfg) -> Q {
+	let (f, kind) = gen_set_key(src);
+	let a = gen_set(src, cfg, f, kind);
+	let x: R = if !a.is_empty() && src.chance(1, 2) {
+		a[src.below(a.len())].clone()
+	} else if src.chance(1, 8) {
+		Ok(gen_val(src, Kind::Mixed))
+	} else {
+		Ok(gen_val(src, kind))
+	};
+	if src.chance(1, WRONG) {
+		let w = wrong_arg(src).to_owned();
+		return Q { class: "setMember", expr: with_key(src, "setMember", vec![lit(&x), w], f), model: M::Is(Err(arg("not an array"))), nontrivial: true };
+	}
+	Q { class: "setMember", expr: with_key(src, "setMember", vec![lit(&x), arr_lit(&a)], f), model: M::Is(m_set_member(&x, &a, f)), nontrivial: a.len() >= 2 }
+}
+
+/// an element of `a` (when possible) or another value of the alphabet
+fn gen_needle(src: &mut Src, a: &[R]) -> V {
+	let present: Vec<&V> = a.iter().filter_map(|e| e.as_ref().ok()).collect();
+	if !present.is_empty() && src.chance(2, 3) {
+		present[src.below(present.len())].clone()
+	} else {
+		gen_val(src, Kind::Mixed)
+	}
+}
+const HAY: [&str; 6] = ["", "a", "ab", "abab", "ba", "aé😀"];
+fn q_member(src: &mut Src, cfg: Cfg) -> Q {
+	if src.chance(1, 4) {
+		// string haystack
+		let s = HAY[src.below(HAY.len())];
+		let x = if src.chance(1, 6) { gen_val(src, Kind::Mixed) } else { V::Str(["a", "", "b", "ab", "ba", "é", "😀", "abc"][src.below(8)].to_owned()) };
+		let model = match &x {
+			V::Str(p) => Ok(V::Bool(!p.is_empty() && s.contains(p.as_str()))),
+			_ => Err(arg("member of a string needs a string")),
+		};
+		return Q { class: "member", expr: call("member", &[lit_v(&V::Str(s.to_owned())), lit_v(&x)]), model: M::Is(model), nontrivial: true };
+	}
+	let a = gen_arr(src, cfg);
+	let x = gen_needle(src, &a);
+	if src.chance(1, WRONG) {
+		let w = wrong_arg(src).to_owned();
+		return Q { class: "member", expr: call("member", &[w, lit_v(&x)]), model: M::Is(Err(arg("not an array or string"))), nontrivial: true };
+	}
+	let model = m_find(&x, &a).map(|v| V::Bool(!v.is_empty()));
+	Q { class: "member", expr: call("member", &[arr_lit(&a), lit_v(&x)]), model: M::Is(model), nontrivial: a.len() >= 2 }
+}
+fn q_contains(src: &mut Src, cfg: Cfg) -> Q {
+	let a = gen_arr(src, cfg);
+	let x = gen_needle(src, &a);
+	if src.chance(1, WRONG) {
+		let w = wrong_arg(src).to_owned();
+		return Q { class: "contains", expr: call("contains", &[w, lit_v(&x)]), model: M::Is(Err(arg("not an array"))), nontrivial: true };
+	}
+	Q { class: "contains", expr: call("contains", &[arr_lit(&a), lit_v(&x)]), model: M::Is(m_contains(&a, &x)), nontrivial: a.len() >= 2 }
+}
+fn q_find(src: &mut Src, cfg: Cfg) -> Q {
+	let a = gen_arr(src, cfg);
+	let x = gen_needle(src, &a);
+	if src.chance(1, WRONG) {
+		let w = ["5", "true", "null", "\"ab\"", "{k: 1}"][src.below(5)].to_owned();
+		return Q { class: "find", expr: call("find", &[lit_v(&x), w]), model: M::Is(Err(arg("not an array"))), nontrivial: true };
+	}
+	let model = m_find(&x, &a).map(|v| arr_of(v.into_iter().map(|i| V::Num(i as f64)).collect()));
+	Q { class: "find", expr: call("find", &[lit_v(&x), arr_lit(&a)]), model: M::Is(model), nontrivial: a.len() >= 2 }
+}
+fn q_count(src: &mut Src, cfg: Cfg) -> Q {
+	let a = gen_arr(src, cfg);
+	let x = gen_needle(src, &a);
+	if src.chance(1, WRONG) {
+		let w = wrong_arg(src).to_owned();
+		return Q { class: "count", expr: call("count", &[w, lit_v(&x)]), model: M::Is(Err(arg("not an array"))), nontrivial: true };
+	}
+	let model = m_find(&x, &a).map(|v| V::Num(v.len() as f64));
+	Q { class: "count", expr: call("count", &[arr_lit(&a), lit_v(&x)]), model: M::Is(model), nontrivial: a.len() >= 2 }
+}
+fn q_remove(src: &mut Src, cfg: Cfg) -> Q {
+	let a = gen_arr(src, cfg);
+	let x = gen_needle(src, &a);
+	if src.chance(1, WRONG) {
+		let w = wrong_arg(src).to_owned();
+		return Q { class: "remove", expr: call("remove", &[w, lit_v(&x)]), model: M::Is(Err(arg("not an array"))), nontrivial: true };
+	}
+	let model = m_find(&x, &a).map(|v| match v.first() {
+		None => V::Arr(a.clone()),
+		Some(i) => V::Arr(m_remove_at(&a, *i as i64)),
+	});
+	Q { class: "remove", expr: call("remove", &[arr_lit(&a), lit_v(&x)]), model: M::Is(model), nontrivial: a.len() >= 2 }
+}
+fn q_remove_at(src: &mut Src, cfg: Cfg) -> Q {
+	let a = gen_arr(src, cfg);
+	let n = a.len() as i64;
+	let at = if src.chance(1, 2) { src.range(0, n.max(1) - 1) } else { src.range(-3, n + 3) };
+	if src.chance(1, WRONG) {
+		let w = wrong_arg(src).to_owned();
+		return Q { class: "removeAt", expr: call("removeAt", &[w, num_text(at as f64)]), model: M::Is(Err(arg("not an array"))), nontrivial: true };
+	}
+	let boundary = at <= 0 || at >= n - 1;
+	Q { class: "removeAt", expr: call("removeAt", &[arr_lit(&a), num_text(at as f64)]), model: is_arr(m_remove_at(&a, at)), nontrivial: boundary || a.len() >= 2 }
+}
+
+fn q_flatten_arrays(src: &mut Src, cfg: Cfg) -> Q {
+	if src.chance(1, WRONG) {
+		let w = wrong_arg(src).to_owned();
+		return Q { class: "flattenArrays", expr: call("flattenArrays", &[w]), model: M::Is(Err(arg("not an array"))), nontrivial: true };
+	}
+	let n = src.range(0, 5) as usize;
+	let mut outer: Vec<R> = vec![];
+	for _ in 0..n {
+		if cfg.lazy && src.chance(1, 8) {
+			outer.push(el_err());
+		} else if src.chance(1, 12) {
+			outer.push(Ok(gen_val(src, Kind::Mixed)));
+		} else {
+			let kind = gen_kind(src);
+			let len = src.range(0, if cfg.long { 12 } else { 4 }) as usize;
+			outer.push(Ok(V::Arr(gen_arr_kind(src, cfg, kind, len))));
+		}
+	}
+	Q { class: "flattenArrays", expr: call("flattenArrays", &[arr_lit(&outer)]), model: m_flatten_arrays(&outer), nontrivial: n >= 2 }
+}
+fn gen_nested(src: &mut Src, cfg: Cfg, depth: usize, leaf: Kind) -> R {
+	if cfg.lazy && src.chance(1, 10) {
+		return el_err();
+	}
+	if depth == 0 || src.chance(2, 5) {
+		return Ok(gen_val(src, leaf));
+	}
+	let n = src.range(0, 3) as usize;
+	Ok(V::Arr((0..n).map(|_| gen_nested(src, cfg, depth - 1, leaf)).collect()))
+}
+fn q_flatten_deep(src: &mut Src, cfg: Cfg) -> Q {
+	let leaf = if src.chance(1, 2) { Kind::Mixed } else { Kind::Num };
+	let v = if src.chance(1, 10) {
+		gen_nested(src, cfg, 0, leaf)
+	} else {
+		let n = src.range(0, 4) as usize;
+		Ok(V::Arr((0..n).map(|_| gen_nested(src, cfg, 3, leaf)).collect()))
+	};
+	let mut out = vec![];
+	let model = m_flatten_deep(&v, &mut out).map(|_| V::Arr(out));
+	Q { class: "flattenDeepArray", expr: call("flattenDeepArray", &[lit(&v)]), model: M::Is(model), nontrivial: true }
+}
+
+const FOLD_STRS: [&str; 6] = ["", "a", "ab", "aab", "é😀", "a€b"];
+fn q_fold(src: &mut Src, cfg: Cfg, left: bool) -> Q {
+	let name = if left { "foldl" } else { "foldr" };
+	let f = pick_fun(src, cfg, FOLDS);
+	let init = Ok(gen_val(src, Kind::Mixed));
+	if src.chance(1, WRONG) {
+		let w = wrong_arg(src).to_owned();
+		return Q { class: name, expr: call(name, &[ftext(f), w, lit(&init)]), model: M::Is(Err(arg("not an array or string"))), nontrivial: true };
+	}
+	let (items, text) = if src.chance(1, 5) {
+		let s = FOLD_STRS[src.below(FOLD_STRS.len())];
+		(chars_of(s), lit_v(&V::Str(s.to_owned())))
+	} else {
+		let a = gen_arr(src, cfg);
+		let t = arr_lit(&a);
+		(a, t)
+	};
+	let model = if left { m_foldl(f, &items, init.clone()) } else { m_foldr(f, &items, init.clone()) };
+	Q { class: name, expr: call(name, &[ftext(f), text, lit(&init)]), model: arity_open(&[Some(f)], M::Is(model)), nontrivial: items.len() >= 2 }
+}
+fn q_foldl(src: &mut Src, cfg: Cfg) -> Q {
+	q_fold(src, cfg, true)
+}
+fn q_foldr(src: &mut Src, cfg: Cfg) -> Q {
+	q_fold(src, cfg, false)
+}
+
+const WRONG_ARR: [&str; 4] = ["5", "true", "null", "{k: 1}"];
+fn q_map(src: &mut Src, cfg: Cfg) -> Q {
+	let f = pick_fun(src, cfg, KEYS);
+	if src.chance(1, WRONG) {
+		let w = WRONG_ARR[src.below(4)].to_owned();
+		return Q { class: "map", expr: call("map", &[ftext(f), w]), model: M::Is(Err(arg("not an array"))), nontrivial: true };
+	}
+	let a = gen_arr(src, cfg);
+	Q { class: "map", expr: call("map", &[ftext(f), arr_lit(&a)]), model: arity_open(&[Some(f)], is_arr(m_map(f, &a))), nontrivial: a.len() >= 2 }
+}
+fn m_idx_first(a: &[R]) -> R {
+	a[0].clone()
+}
+static INDEXED: &[Fun] = &[
+	Fun { text: "function(i, x) [i, x]", m: m2_pair, dom: ALLK, forcing: false },
+	Fun { text: "function(i, x) i", m: m_idx_first, dom: ALLK, forcing: false },
+	Fun { text: "function(i, x) x", m: m2_snd, dom: ALLK, forcing: true },
+	Fun { text: "function(i, x) i + x", m: m2_plus, dom: ALLK, forcing: true },
+	Fun { text: "function(i, x) if i == 1 || x == 1 then error \"boom\" else [i, x]", m: m2_boom, dom: ALLK, forcing: true },
+	Fun { text: "function(x) x", m: m_bad_arity, dom: &[], forcing: false },
+];
+fn q_map_with_index(src: &mut Src, cfg: Cfg) -> Q {
+	let f = pick_fun(src, cfg, INDEXED);
+	if src.chance(1, WRONG) {
+		let w = WRONG_ARR[src.below(4)].to_owned();
+		return Q { class: "mapWithIndex", expr: call("mapWithIndex", &[ftext(f), w]), model: M::Is(Err(arg("not an array"))), nontrivial: true };
+	}
+	let a = gen_arr(src, cfg);
+	let out: Vec<R> = a.iter().enumerate().map(|(i, e)| (f.m)(&[num(i as f64), e.clone()])).collect();
+	Q { class: "mapWithIndex", expr: call("mapWithIndex", &[ftext(f), arr_lit(&a)]), model: arity_open(&[Some(f)], is_arr(out)), nontrivial: a.len() >= 2 }
+}
+const WRONG_ARR_S: [&str; 5] = ["5", "true", "null", "{k: 1}", "\"ab\""];
+fn q_filter(src: &mut Src, cfg: Cfg) -> Q {
+	let f = pick_fun(src, cfg, PREDS);
+	if src.chance(1, WRONG) {
+		let w = WRONG_ARR_S[src.below(5)].to_owned();
+		return Q { class: "filter", expr: call("filter", &[ftext(f), w]), model: M::Is(Err(arg("not an array"))), nontrivial: true };
+	}
+	let a = gen_arr(src, cfg);
+	Q { class: "filter", expr: call("filter", &[ftext(f), arr_lit(&a)]), model: arity_open(&[Some(f)], M::Is(m_filter(f, &a).map(V::Arr))), nontrivial: a.len() >= 2 }
+}
+fn q_filter_map(src: &mut Src, cfg: Cfg) -> Q {
+	let p = pick_fun(src, cfg, PREDS);
+	let f = pick_fun(src, cfg, KEYS);
+	if src.chance(1, WRONG) {
+		let w = WRONG_ARR_S[src.below(5)].to_owned();
+		return Q { class: "filterMap", expr: call("filterMap", &[ftext(p), ftext(f), w]), model: M::Is(Err(arg("not an array"))), nontrivial: true };
+	}
+	let a = gen_arr(src, cfg);
+	let model = m_filter(p, &a).map(|kept| V::Arr(m_map(f, &kept)));
+	Q { class: "filterMap", expr: call("filterMap", &[ftext(p), ftext(f), arr_lit(&a)]), model: arity_open(&[Some(p), Some(f)], M::Is(model)), nontrivial: a.len() >= 2 }
+}
+fn q_flat_map(src: &mut Src, cfg: Cfg) -> Q {
+	if src.chance(1, WRONG) {
+		let f = pick_fun(src, cfg, FLATS);
+		let w = WRONG_ARR[src.below(4)].to_owned();
+		return Q { class: "flatMap", expr: call("flatMap", &[ftext(f), w]), model: M::Is(Err(arg("not an array or string"))), nontrivial: true };
+	}
+	if src.chance(1, 4) {
+		let f = pick_fun(src, cfg, FLATS_STR);
+		let s = FOLD_STRS[src.below(FOLD_STRS.len())];
+		// join('', [f(c) for c in s])
+		let parts: Vec<R> = chars_of(s).iter().map(|c| (f.m)(std::slice::from_ref(c))).collect();
+		let model = m_join(&V::Str(String::new()), &parts);
+		return Q { class: "flatMap", expr: call("flatMap", &[ftext(f), lit_v(&V::Str(s.to_owned()))]), model: M::Is(model), nontrivial: s.chars().count() >= 2 };
+	}
+	let f = pick_fun(src, cfg, FLATS);
+	let a = if f.dom.len() == 1 && f.dom[0] == Kind::Arr {
+		let len = gen_len(src, cfg).min(8);
+		let kind = if src.chance(1, 6) { Kind::Mixed } else { Kind::Arr };
+		gen_arr_kind(src, cfg, kind, len)
+	} else {
+		gen_arr(src, cfg)
+	};
+	let parts: Vec<R> = m_map(f, &a);
+	// flattenArrays(parts): every f(x) must be an array (a string result is left open: array + string concatenates)
+	let model = m_flatten_arrays(&parts);
+	Q { class: "flatMap", expr: call("flatMap", &[ftext(f), arr_lit(&a)]), model: arity_open(&[Some(f)], model), nontrivial: a.len() >= 2 }
+}
+
+fn q_join(src: &mut Src, cfg: Cfg) -> Q {
+	let n = gen_len(src, cfg).min(10);
+	let strings = src.chance(1, 2);
+	let sep: V = if src.chance(1, WRONG) {
+		[V::Num(5.0), V::Null, V::Bool(true)][src.below(3)].clone()
+	} else if strings {
+		V::Str(["", ",", "ab"][src.below(3)].to_owned())
+	} else {
+		[arr_of(vec![]), arr_of(vec![V::Num(0.0)]), arr_of(vec![V::Num(1.0), V::Num(2.0)])][src.below(3)].clone()
+	};
+	if src.chance(1, WRONG) {
+		let w = WRONG_ARR_S[src.below(5)].to_owned();
+		return Q { class: "join", expr: call("join", &[lit_v(&sep), w]), model: M::Is(Err(arg("not an array"))), nontrivial: true };
+	}
+	let a: Vec<R> = (0..n)
+		.map(|_| {
+			if cfg.lazy && src.chance(1, 6) {
+				return el_err();
+			}
+			match src.weighted(&[14, 4, 1]) {
+				0 if !strings && cfg.lazy => {
+					// the joined arrays' own elements are not needed for the length of the result
+					let len = src.range(0, 3) as usize;
+					Ok(V::Arr(gen_arr_kind(src, cfg, Kind::Num, len)))
+				}
+				0 => Ok(gen_val(src, if strings { Kind::Str } else { Kind::Arr })),
+				1 => Ok(V::Null),
+				_ => Ok(gen_val(src, Kind::Mixed)),
+			}
+		})
+		.collect();
+	Q { class: "join", expr: call("join", &[lit_v(&sep), arr_lit(&a)]), model: M::Is(m_join(&sep, &a)), nontrivial: n >= 2 }
+}
+fn q_lines(src: &mut Src, cfg: Cfg) -> Q {
+	if src.chance(1, WRONG) {
+		let w = WRONG_ARR_S[src.below(5)].to_owned();
+		return Q { class: "lines", expr: call("lines", &[w]), model: M::Is(Err(arg("not an array"))), nontrivial: true };
+	}
+	let n = gen_len(src, cfg).min(10);
+	let mut a: Vec<R> = (0..n)
+		.map(|_| match src.weighted(&[14, 3, 1]) {
+			0 => Ok(gen_val(src, Kind::Str)),
+			1 => Ok(V::Null),
+			_ => Ok(gen_val(src, Kind::Mixed)),
+		})
+		.collect();
+	let expr = call("lines", &[arr_lit(&a)]);
+	a.push(st(""));
+	Q { class: "lines", expr, model: M::Is(m_join(&V::Str("\n".to_owned()), &a)), nontrivial: n >= 2 }
+}
+fn q_deep_join(src: &mut Src, cfg: Cfg) -> Q {
+	let leaf = if src.chance(1, 5) { Kind::Mixed } else { Kind::Str };
+	let v = if src.chance(1, 10) {
+		gen_nested(src, cfg, 0, leaf)
+	} else {
+		let n = src.range(0, 4) as usize;
+		Ok(V::Arr((0..n).map(|_| gen_nested(src, cfg, 3, leaf)).collect()))
+	};
+	Q { class: "deepJoin", expr: call("deepJoin", &[lit(&v)]), model: M::Is(m_deep_join(&v)), nontrivial: true }
+}
+
+fn q_any_all(src: &mut Src, cfg: Cfg, all: bool) -> Q {
+	let name = if all { "all" } else { "any" };
+	if src.chance(1, WRONG) {
+		let w = WRONG_ARR_S[src.below(5)].to_owned();
+		return Q { class: name, expr: call(name, &[w]), model: M::Is(Err(arg("not an array"))), nontrivial: true };
+	}
+	let n = gen_len(src, cfg);
+	// mostly the non-deciding value so that long prefixes are read
+	let a: Vec<R> = (0..n)
+		.map(|_| {
+			if cfg.lazy && src.chance(1, 8) {
+				return el_err();
+			}
+			match src.weighted(&[10, 3, 1]) {
+				0 => Ok(V::Bool(all)),
+				1 => Ok(V::Bool(!all)),
+				_ => Ok(gen_val(src, Kind::Mixed)),
+			}
+		})
+		.collect();
+	Q { class: name, expr: call(name, &[arr_lit(&a)]), model: m_any_all(&a, all), nontrivial: n >= 2 }
+}
+fn q_any(src: &mut Src, cfg: Cfg) -> Q {
+	q_any_all(src, cfg, false)
+}
+fn q_all(src: &mut Src, cfg: Cfg) -> Q {
+	q_any_all(src, cfg, true)
+}
+fn gen_nums(src: &mut Src, cfg: Cfg) -> Vec<R> {
+	let n = gen_len(src, cfg);
+	(0..n)
+		.map(|_| {
+			if cfg.lazy && src.chance(1, 8) {
+				return el_err();
+			}
+			if src.chance(1, 30) {
+				Ok(gen_val(src, Kind::Mixed))
+			} else {
+				Ok(gen_val(src, Kind::Num))
+			}
+		})
+		.collect()
+}
+fn q_sum(src: &mut Src, cfg: Cfg) -> Q {
+	if src.chance(1, WRONG) {
+		let w = wrong_arg(src).to_owned();
+		return Q { class: "sum", expr: call("sum", &[w]), model: M::Is(Err(arg("not an array"))), nontrivial: true };
+	}
+	let a = gen_nums(src, cfg);
+	Q { class: "sum", expr: call("sum", &[arr_lit(&a)]), model: m_sum(&a), nontrivial: a.len() >= 2 }
+}
+fn q_avg(src: &mut Src, cfg: Cfg) -> Q {
+	if src.chance(1, WRONG) {
+		let w = wrong_arg(src).to_owned();
+		return Q { class: "avg", expr: call("avg", &[w]), model: M::Is(Err(arg("not an array"))), nontrivial: true };
+	}
+	let a = gen_nums(src, cfg);
+	let model = if a.is_empty() {
+		M::Is(Err(arg("average of an empty array")))
+	} else {
+		match m_sum(&a) {
+			M::Is(Ok(V::Num(s))) => M::Is(num(s / a.len() as f64)),
+			o => o,
+		}
+	};
+	Q { class: "avg", expr: call("avg", &[arr_lit(&a)]), model, nontrivial: a.len() >= 2 || a.is_empty() }
+}
+fn q_top(src: &mut Src, cfg: Cfg, max: bool) -> Q {
+	let name = if max { "maxArray" } else { "minArray" };
+	let f = pick_key(src, cfg);
+	let a = if src.chance(1, 8) { vec![] } else { gen_arr(src, cfg) };
+	let on_empty: Option<R> = match src.weighted(&[3, 2, 1]) {
+		0 => None,
+		1 => Some(st("E")),
+		_ => Some(Err(arg("oe"))),
+	};
+	let mut args = vec![if src.chance(1, WRONG) { wrong_arg(src).to_owned() } else { arr_lit(&a) }];
+	let wrong = !args[0].starts_with('[');
+	let named_key = src.chance(1, 3);
+	match (f, &on_empty) {
+		(Some(f), Some(oe)) => {
+			if named_key {
+				args.push(format!("keyF={}", ftext(f)));
+				args.push(format!("onEmpty={}", lit(oe)));
+			} else {
+				args.push(ftext(f));
+				args.push(lit(oe));
+			}
+		}
+		(Some(f), None) => args.push(if named_key { format!("keyF={}", ftext(f)) } else { ftext(f) }),
+		(None, Some(oe)) => args.push(format!("onEmpty={}", lit(oe))),
+		(None, None) => {}
+	}
+	let model = if wrong { M::Is(Err(arg("not an array"))) } else { arity_open(&[f], m_top(&a, f, on_empty.as_ref(), max)) };
+	Q { class: name, expr: call(name, &args), model, nontrivial: a.is_empty() || (a.len() >= 2 && has_tie(&a, f)) || wrong }
+}
+fn q_min_array(src: &mut Src, cfg: Cfg) -> Q {
+	q_top(src, cfg, false)
+}
+fn q_max_array(src: &mut Src, cfg: Cfg) -> Q {
+	q_top(src, cfg, true)
+}
+
+fn q_range(src: &mut Src, cfg: Cfg) -> Q {
+	if src.chance(1, WRONG) {
+		let w = ["\"a\"", "true", "null", "[1]"][src.below(4)].to_owned();
+		let args = if src.chance(1, 2) { vec![w, "3".to_owned()] } else { vec!["0".to_owned(), w] };
+		return Q { class: "range", expr: call("range", &args), model: M::Is(Err(arg("not a number"))), nontrivial: true };
+	}
+	let from = src.range(-3, 5);
+	let to = if src.chance(1, 3) { from + src.range(-1, 1) } else { src.range(-3, if cfg.long { 40 } else { 9 }) };
+	let model = if to - from + 1 < 0 {
+		M::Open("std.range with to < from - 1 (the definition asks makeArray for a negative size)")
+	} else {
+		is_arr((from..=to).map(|i| num(i as f64)).collect())
+	};
+	Q { class: "range", expr: call("range", &[num_text(from as f64), num_text(to as f64)]), model, nontrivial: (to - from).abs() <= 1 || from < 0 }
+}
+fn q_repeat(src: &mut Src, cfg: Cfg) -> Q {
+	let count = src.range(-2, if cfg.long { 12 } else { 4 });
+	if src.chance(1, WRONG) {
+		let w = WRONG_ARR[src.below(4)].to_owned();
+		return Q { class: "repeat", expr: call("repeat", &[w, num_text(count as f64)]), model: M::Is(Err(arg("not an array or string"))), nontrivial: true };
+	}
+	let (what, model): (String, R) = if src.chance(1, 3) {
+		let s = ["", "a", "ab", "é😀"][src.below(4)];
+		(lit_v(&V::Str(s.to_owned())), if count < 0 { Err(arg("negative count")) } else { Ok(V::Str(s.repeat(count as usize))) })
+	} else {
+		let kind = gen_kind(src);
+		let len = src.range(0, 4) as usize;
+		let a = gen_arr_kind(src, cfg, kind, len);
+		let model = if count < 0 {
+			Err(arg("negative count"))
+		} else {
+			Ok(V::Arr((0..count).flat_map(|_| a.iter().cloned()).collect()))
+		};
+		(arr_lit(&a), model)
+	};
+	Q { class: "repeat", expr: call("repeat", &[what, num_text(count as f64)]), model: M::Is(model), nontrivial: count <= 1 || count >= 2 }
+}
+const SLICE_STRS: [&str; 5] = ["", "a", "ab", "abcdé😀", "héllo wörld"];
+fn q_slice(src: &mut Src, cfg: Cfg) -> Q {
+	let (items, text, is_str) = if src.chance(1, 3) {
+		let s = SLICE_STRS[src.below(SLICE_STRS.len())];
+		(chars_of(s), lit_v(&V::Str(s.to_owned())), true)
+	} else {
+		let a = gen_arr(src, cfg);
+		let t = arr_lit(&a);
+		(a, t, false)
+	};
+	let n = items.len() as i64;
+	let bound = |src: &mut Src| -> Option<i64> {
+		if src.chance(1, 5) {
+			None
+		} else {
+			Some(src.range(-3, n + 3))
+		}
+	};
+	let index = bound(src);
+	let end = bound(src);
+	let step = match src.weighted(&[4, 6, 1, 1]) {
+		0 => None,
+		1 => Some(src.range(1, 3)),
+		2 => Some(0),
+		_ => Some(-1),
+	};
+	let show = |o: Option<i64>| o.map(|v| num_text(v as f64)).unwrap_or_else(|| "null".to_owned());
+	let target = if src.chance(1, WRONG) { WRONG_ARR[src.below(4)].to_owned() } else { text };
+	let wrong = !(target.starts_with('[') || target.starts_with('"'));
+	let expr = call("slice", &[target, show(index), show(end), show(step)]);
+	let model: R = if wrong {
+		Err(arg("not an array or string"))
+	} else {
+		m_slice(&items, index, end, step).and_then(|v| {
+			if is_str {
+				let mut s = String::new();
+				for c in v {
+					if let V::Str(c) = c? {
+						s.push_str(&c);
+					}
+				}
+				Ok(V::Str(s))
+			} else {
+				Ok(V::Arr(v))
+			}
+		})
+	};
+	let at = |o: Option<i64>| matches!(o, Some(v) if v <= 0 || v >= n - 1);
+	Q { class: "slice", expr, model: M::Is(model), nontrivial: at(index) || at(end) || n >= 2 }
+}
+fn q_make_array(src: &mut Src, cfg: Cfg) -> Q {
+	let f = pick_fun(src, cfg, MAKERS);
+	if src.chance(1, WRONG) {
+		let (a, b) = if src.chance(1, 2) { (["\"a\"", "null", "[1]", "true"][src.below(4)].to_owned(), ftext(f)) } else { ("2".to_owned(), ["1", "null", "[1]", "\"a\""][src.below(4)].to_owned()) };
+		return Q { class: "makeArray", expr: call("makeArray", &[a, b]), model: M::Is(Err(arg("wrong argument type"))), nontrivial: true };
+	}
+	let sz = src.range(-2, if cfg.long { 40 } else { 8 });
+	let model: R = if sz < 0 { Err(arg("negative size")) } else { Ok(V::Arr((0..sz).map(|i| (f.m)(&[num(i as f64)])).collect())) };
+	Q { class: "makeArray", expr: call("makeArray", &[num_text(sz as f64), ftext(f)]), model: arity_open(&[Some(f)], M::Is(model)), nontrivial: sz <= 1 || sz >= 2 }
+}
+
+type Gen = fn(&mut Src, Cfg) -> Q;
+pub static FNS: &[(&str, Gen)] = &[
+	("sort", q_sort),
+	("uniq", q_uniq),
+	("set", q_set),
+	("setMember", q_set_member),
+	("setUnion", q_set_union),
+	("setInter", q_set_inter),
+	("setDiff", q_set_diff),
+	("member", q_member),
+	("contains", q_contains),
+	("find", q_find),
+	("count", q_count),
+	("remove", q_remove),
+	("removeAt", q_remove_at),
+	("flattenArrays", q_flatten_arrays),
+	("flattenDeepArray", q_flatten_deep),
+	("foldl", q_foldl),
+	("foldr", q_foldr),
+	("map", q_map),
+	("mapWithIndex", q_map_with_index),
+	("filter", q_filter),
+	("filterMap", q_filter_map),
+	("flatMap", q_flat_map),
+	("join", q_join),
+	("lines", q_lines),
+	("deepJoin", q_deep_join),
+	("any", q_any),
+	("all", q_all),
+	("sum", q_sum),
+	("avg", q_avg),
+	("minArray", q_min_array),
+	("maxArray", q_max_array),
+	("range", q_range),
+	("repeat", q_repeat),
+	("slice", q_slice),
+	("makeArray", q_make_array),
+];
+
+// ───────────────────────────── deciding a call ─────────────────────────────
+
+/// what jrsonnet answered for one observation: Ok(value) or Err((kind, message))
+type Obs = Result<J, (String, String)>;
+
+fn read_try(item: &J, json_text: bool) -> Result<Obs, String> {
+	let J::Arr(r) = item else { return Err("malformed verif.try result".to_owned()) };
+	match r.first() {
+		Some(J::Bool(true)) => {
+			let v = r.get(1).ok_or("malformed verif.try result")?;
+			if json_text {
+				let J::Str(t) = v else { return Err("verif.tryj did not return text".to_owned()) };
+				json::parse(t).map(Ok).map_err(|e| format!("manifested text is not JSON ({}): {t}", e.0))
+			} else {
+				Ok(Ok(v.clone()))
+			}
+		}
+		Some(J::Bool(false)) => {
+			let s = |i: usize| match r.get(i) {
+				Some(J::Str(s)) => s.clone(),
+				_ => String::new(),
+			};
+			Ok(Err((s(1), s(2))))
+		}
+		_ => Err("malformed verif.try result".to_owned()),
+	}
+}
+fn show_obs(o: &Obs) -> String {
+	match o {
+		Ok(j) => format!("VALUE {}", j.to_text()),
+		Err((k, m)) => format!("ERROR[{k}] {m}"),
+	}
+}
+
+/// evaluate `[verif.tryj(e), verif.try(std.length(e))]`
+fn observe(expr: &str) -> Result<(Obs, Obs), String> {
+	let expr = &mutate(expr);
+	let prog = format!("[verif.tryj({expr}), verif.try(std.length({expr}))]");
+	match jr::eval(&prog, &Opts::default()) {
+		Outcome::Val(t) => {
+			let Ok(J::Arr(items)) = json::parse(&t) else { return Err(format!("harness program did not return an array: {t}")) };
+			if items.len() != 2 {
+				return Err("harness program returned a wrong number of items".to_owned());
+			}
+			Ok((read_try(&items[0], true)?, read_try(&items[1], false)?))
+		}
+		o => Err(o.short()),
+	}
+}
+
+fn strictness_note(o: &Obs) -> &'static str {
+	match o {
+		Err((_, m)) if m.ends_with(": el") || m == "el" => "STRICTNESS (an input element is evaluated that the definition does not evaluate): ",
+		Err((_, m)) if m.ends_with(": boom") => "STRICTNESS (the user function is called where the definition does not call it, or its result is forced): ",
+		_ => "",
+	}
+}
+
+/// Signatures of the disagreements found so far.  A failure that matches one is reported as that finding
+/// (`Verdict::Known`) when the id is listed with status "known" in known_findings.jsonl for C10 — the search then goes on
+/// behind it.  `VERIF_C10_TRIAGE=1` treats all of them as listed (triage aid: shows what else fails).
+fn known_signature(q: &Q, why: &str) -> Option<&'static str> {
+	let eager_elem = why.contains("STRICTNESS (an input element");
+	let args_end = q.expr.rfind(", ").map(|i| &q.expr[i + 2..]).unwrap_or("");
+	match q.class {
+		"map" | "mapWithIndex" | "filterMap" | "foldl" | "foldr" | "flatMap" | "minArray" | "maxArray" | "join" if eager_elem => Some("C10-eager-elements"),
+		"setMember" if q.expr.contains(", []") && why.contains("expected VALUE false, got ERROR") => Some("C10-setmember-empty-set-calls-keyf"),
+		"flatMap" if q.expr.contains("null") && why.contains("expected ERROR (flattenArrays element is not an array), got VALUE") => Some("C10-flatmap-null-accepted"),
+		"sort" | "set" if unstable_identity_sort(&q.expr) && why.starts_with("manifestation: expected VALUE") && !why.contains("std.length") => Some("C10-sort-identity-unstable"),
+		"sum" | "avg" if why.contains("expected VALUE 0.0, got VALUE -0.0") => Some("C10-sum-negative-zero"),
+		"removeAt" if args_end.starts_with('-') => Some("C10-removeat-negative-index"),
+		_ => None,
+	}
+}
+/// number of elements of the first array literal in `expr`
+fn first_array_len(expr: &str) -> usize {
+	let Some(start) = expr.find('[') else { return 0 };
+	let (mut depth, mut commas, mut any) = (0usize, 0usize, false);
+	for c in expr[start..].chars() {
+		match c {
+			'[' | '{' | '(' => depth += 1,
+			']' | '}' | ')' => {
+				depth -= 1;
+				if depth == 0 {
+					break;
+				}
+			}
+			',' if depth == 1 => commas += 1,
+			c if !c.is_whitespace() && depth >= 1 => any = true,
+			_ => {}
+		}
+	}
+	if any {
+		commas + 1
+	} else {
+		0
+	}
+}
+/// more than 20 elements, no key function, and a negative zero among the elements
+fn unstable_identity_sort(expr: &str) -> bool {
+	let no_key = expr.ends_with("])") || expr.ends_with("(function(x) x))");
+	no_key && first_array_len(expr) > 20 && expr.contains("-0")
+}
+fn listed(run: &Run, id: &str) -> bool {
+	run.is_known(id) || std::env::var_os("VERIF_C10_TRIAGE").is_some()
+}
+
+pub fn decide(run: &Run, q: &Q) -> CaseOut {
+	let text = q.expr.clone();
+	let obs = observe(&q.expr);
+	let r = match &q.model {
+		M::Open(why) => {
+			// nothing is demanded except that the evaluator survives
+			return match obs {
+				Err(e) => CaseOut::fail(text, format!("evaluation broke down: {e}")).class(format!("open:{}", q.class)),
+				Ok(_) => CaseOut::pass(text, false).class(format!("open:{}", q.class)).class(format!("open-reason:{why}")),
+			};
+		}
+		M::Is(r) => r,
+	};
+	let classes = vec![format!("fn:{}", q.class), format!("expect:{}", if r.is_ok() { "value" } else { "error" })];
+	let (man, len) = match obs {
+		Ok(x) => x,
+		Err(e) => return CaseOut::fail(text, format!("evaluation broke down: {e}")).classes(classes),
+	};
+	let mut problems: Vec<String> = vec![];
+	// full manifestation
+	match deep(r) {
+		Ok(want) => match &man {
+			Ok(got) if exact_same(got, &want) => {}
+			other => problems.push(format!("{}manifestation: expected VALUE {}, got {}", strictness_note(other), want.to_text(), show_obs(other))),
+		},
+		Err(e) if e.elem => {}
+		Err(e) => {
+			if let Ok(got) = &man {
+				problems.push(format!("manifestation: expected ERROR ({}), got VALUE {}", e.msg, got.to_text()));
+			}
+		}
+	}
+	// length only: must not need the elements
+	match r {
+		Ok(V::Arr(_) | V::Str(_)) => {
+			let want = match r {
+				Ok(V::Arr(v)) => v.len(),
+				Ok(V::Str(s)) => s.chars().count(),
+				_ => unreachable!(),
+			};
+			match &len {
+				Ok(J::Num(n)) if *n == want as f64 => {}
+				other => problems.push(format!("{}std.length of the result: expected {want}, got {}", strictness_note(other), show_obs(other))),
+			}
+		}
+		Ok(_) => {}
+		Err(e) if e.elem => {}
+		Err(e) => {
+			if let Ok(got) = &len {
+				problems.push(format!("std.length of the result: expected ERROR ({}), got VALUE {}", e.msg, got.to_text()));
+			}
+		}
+	}
+	if problems.is_empty() {
+		return CaseOut::pass(text, q.nontrivial).classes(classes);
+	}
+	let why = problems.join("\n");
+	if let Some(id) = known_signature(q, &why) {
+		if listed(run, id) {
+			let mut c = CaseOut::fail(text, why).classes(classes);
+			c.verdict = Verdict::Known(id.to_owned());
+			return c;
+		}
+	}
+	CaseOut::fail(text, why).classes(classes)
+}
+
+// ───────────────────────────── model-free relations ─────────────────────────────
+
+fn from_j(j: &J) -> V {
+	match j {
+		J::Null => V::Null,
+		J::Bool(b) => V::Bool(*b),
+		J::Num(x) => V::Num(*x),
+		J::Str(s) => V::Str(s.clone()),
+		J::Arr(a) => V::Arr(a.iter().map(|x| Ok(from_j(x))).collect()),
+		J::Obj(f) => V::Obj(f.iter().map(|(k, v)| (k.clone(), from_j(v))).collect()),
+	}
+}
+
+/// std.sort's own output must be ordered by the keys and keep elements with equal keys in input order
+fn rel_sort(run: &Run, src: &mut Src, cfg: Cfg) -> CaseOut {
+	let (f, kind) = gen_set_key(src);
+	let len = gen_len(src, cfg);
+	let a = gen_arr_kind(src, Cfg { lazy: false, ..cfg }, kind, len);
+	let expr = {
+		let mut args = vec![arr_lit(&a)];
+		if let Some(f) = f {
+			args.push(ftext(f));
+		}
+		call("sort", &args)
+	};
+	let keys_in: Vec<R> = a.iter().map(|x| key(f, x)).collect();
+	if keys_in.iter().any(|k| !matches!(k, Ok(V::Num(_) | V::Str(_) | V::Arr(_)))) {
+		return CaseOut::discard(expr, "key function undefined on an element");
+	}
+	let (man, _) = match observe(&expr) {
+		Ok(x) => x,
+		Err(e) => return CaseOut::fail(expr, format!("evaluation broke down: {e}")),
+	};
+	let out = match man {
+		Ok(J::Arr(v)) => v,
+		other => return CaseOut::fail(expr, format!("all keys are mutually comparable, expected an array, got {}", show_obs(&other))),
+	};
+	let out_v: Vec<V> = out.iter().map(from_j).collect();
+	let keys_out: Vec<R> = out_v.iter().map(|x| key(f, &Ok(x.clone()))).collect();
+	let fail = |why: String| CaseOut::fail(expr.clone(), format!("{why}\noutput: {}", J::Arr(out.clone()).to_text())).class("rel:sort");
+	if out.len() != a.len() {
+		return fail("output length differs from input length".to_owned());
+	}
+	for w in keys_out.windows(2) {
+		match (&w[0], &w[1]) {
+			(Ok(x), Ok(y)) => {
+				if compare(x, y).map(|o| o == Ordering::Greater).unwrap_or(true) {
+					return fail("output is not ordered by the keys".to_owned());
+				}
+			}
+			_ => return fail("output contains an element that was not in the input".to_owned()),
+		}
+	}
+	// stability + permutation: per class of equal keys the same sequence of elements
+	let mut reps: Vec<V> = vec![];
+	let mut class_of = |k: &V| -> usize {
+		for (i, r) in reps.iter().enumerate() {
+			if equals(r, k).unwrap_or(false) {
+				return i;
+			}
+		}
+		reps.push(k.clone());
+		reps.len() - 1
+	};
+	let mut seq_in: Vec<Vec<String>> = vec![];
+	let mut seq_out: Vec<Vec<String>> = vec![];
+	for (e, k) in a.iter().zip(&keys_in) {
+		let c = class_of(k.as_ref().unwrap());
+		seq_in.resize(seq_in.len().max(c + 1), vec![]);
+		seq_in[c].push(lit(e));
+	}
+	for (e, k) in out_v.iter().zip(&keys_out) {
+		let c = class_of(k.as_ref().unwrap());
+		seq_out.resize(seq_out.len().max(c + 1), vec![]);
+		seq_out[c].push(lit_v(e));
+	}
+	seq_in.resize(seq_in.len().max(seq_out.len()), vec![]);
+	seq_out.resize(seq_in.len(), vec![]);
+	if seq_in != seq_out {
+		if unstable_identity_sort(&expr) && listed(run, "C10-sort-identity-unstable") {
+			let mut c = fail("output is not a stable permutation of the input".to_owned());
+			c.verdict = Verdict::Known("C10-sort-identity-unstable".to_owned());
+			return c;
+		}
+		return fail("output is not a stable permutation of the input (elements with equal keys changed order or content)".to_owned());
+	}
+	CaseOut::pass(expr, a.len() >= 2 && has_tie(&a, f)).class("rel:sort")
+}
+
+/// setUnion / setInter / setDiff agree with setMember, evaluated by jrsonnet itself on genuine sets
+fn rel_sets(src: &mut Src, cfg: Cfg) -> CaseOut {
+	let (f, kind) = gen_set_key(src);
+	let a = gen_set(src, cfg, f, kind);
+	let b = gen_set(src, cfg, f, kind);
+	let extra: Vec<R> = alphabet(kind).into_iter().map(Ok).filter(|x| matches!(key(f, x), Ok(V::Num(_) | V::Str(_) | V::Arr(_)))).collect();
+	let fa = f.map(|f| format!(", {}", ftext(f))).unwrap_or_default();
+	let expr = format!(
+		"local a = {}, b = {}, xs = a + b + {};\nlocal u = std.setUnion(a, b{fa}), n = std.setInter(a, b{fa}), d = std.setDiff(a, b{fa});\n{{ u: u, n: n, d: d, m: [[std.setMember(x, a{fa}), std.setMember(x, b{fa}), std.setMember(x, u{fa}), std.setMember(x, n{fa}), std.setMember(x, d{fa})] for x in xs] }}",
+		arr_lit(&a),
+		arr_lit(&b),
+		arr_lit(&extra)
+	);
+	let out = match jr::eval(&format!("verif.tryj({})", mutate(&expr)), &Opts::default()) {
+		Outcome::Val(t) => match json::parse(&t).map_err(|e| e.0).and_then(|j| read_try(&j, true)) {
+			Ok(Ok(j)) => j,
+			Ok(Err(e)) => return CaseOut::fail(expr, format!("set operations on genuine sets with comparable keys failed: {}", show_obs(&Err(e)))).class("rel:sets"),
+			Err(e) => return CaseOut::fail(expr, e).class("rel:sets"),
+		},
+		o => return CaseOut::fail(expr, format!("evaluation broke down: {}", o.short())).class("rel:sets"),
+	};
+	let J::Obj(fields) = &out else { return CaseOut::fail(expr, "result is not an object".to_owned()) };
+	let get = |k: &str| fields.iter().find(|x| x.0 == k).map(|x| x.1.clone()).unwrap_or(J::Null);
+	let xs: Vec<R> = a.iter().chain(b.iter()).chain(extra.iter()).cloned().collect();
+	let member = |x: &R, s: &[R]| -> bool {
+		let kx = key(f, x).unwrap();
+		s.iter().any(|e| equals(&key(f, e).unwrap(), &kx).unwrap_or(false))
+	};
+	let mut problems = vec![];
+	// the three results are sets (strictly ascending keys)
+	for name in ["u", "n", "d"] {
+		let J::Arr(v) = get(name) else {
+			problems.push(format!("{name} is not an array"));
+			continue;
+		};
+		let ks: Vec<R> = v.iter().map(|e| key(f, &Ok(from_j(e)))).collect();
+		for w in ks.windows(2) {
+			let asc = matches!((&w[0], &w[1]), (Ok(x), Ok(y)) if compare(x, y).map(|o| o == Ordering::Less).unwrap_or(false));
+			if !asc {
+				problems.push(format!("{name} = {} is not strictly ascending by key", J::Arr(v.clone()).to_text()));
+				break;
+			}
+		}
+	}
+	let J::Arr(rows) = get("m") else { return CaseOut::fail(expr, "membership table missing".to_owned()) };
+	for (x, row) in xs.iter().zip(rows.iter()) {
+		let J::Arr(r) = row else { continue };
+		let bit = |i: usize| r.get(i) == Some(&J::Bool(true));
+		let (ia, ib, iu, inn, id) = (bit(0), bit(1), bit(2), bit(3), bit(4));
+		if ia != member(x, &a) || ib != member(x, &b) {
+			problems.push(format!("setMember({}, a/b) = {ia}/{ib}, but key equality says {}/{}", lit(x), member(x, &a), member(x, &b)));
+		}
+		if iu != (ia || ib) {
+			problems.push(format!("x = {}: in union = {iu}, in a = {ia}, in b = {ib}", lit(x)));
+		}
+		if inn != (ia && ib) {
+			problems.push(format!("x = {}: in intersection = {inn}, in a = {ia}, in b = {ib}", lit(x)));
+		}
+		if id != (ia && !ib) {
+			problems.push(format!("x = {}: in difference = {id}, in a = {ia}, in b = {ib}", lit(x)));
+		}
+	}
+	if problems.is_empty() {
+		CaseOut::pass(expr, !a.is_empty() && !b.is_empty()).class("rel:sets")
+	} else {
+		problems.truncate(6);
+		CaseOut::fail(expr, format!("{}\nresults: {}", problems.join("\n"), out.to_text())).class("rel:sets")
+	}
+}
+
+// ───────────────────────────── fixed probes ─────────────────────────────
+
+/// (expression, expected JSON or "ERROR"): consequences of the documented definitions that are easy to state by hand
+const SEEDS: &[(&str, &str)] = &[
+	("std.length(std.map(function(x) error \"f\", [1, 2]))", "2"),
+	("std.map(function(x) 0, [error \"el\"])", "[0]"),
+	("std.length(std.mapWithIndex(function(i, x) error \"f\", [1, 2]))", "2"),
+	("std.length(std.makeArray(3, function(i) error \"f\"))", "3"),
+	("std.length(std.filter(function(x) true, [error \"el\"]))", "1"),
+	("std.length(std.filterMap(function(x) true, function(x) error \"f\", [1]))", "1"),
+	("std.minArray([1], onEmpty=error \"oe\")", "1"),
+	("std.maxArray([], onEmpty=7)", "7"),
+	("std.foldl(function(a, b) 0, [error \"el\"], 1)", "0"),
+	("std.foldr(function(a, b) 0, [error \"el\"], 1)", "0"),
+	("std.foldl(function(a, b) [a, b], [1, 2, 3], 0)", "[[[0,1],2],3]"),
+	("std.foldr(function(a, b) [a, b], [1, 2, 3], 0)", "[1,[2,[3,0]]]"),
+	("std.foldl(function(a, b) a + b, \"a\u{e9}\u{1f600}\", \"<\")", "\"<a\u{e9}\u{1f600}\""),
+	("std.foldr(function(a, b) a + b, \"abc\", \">\")", "\"abc>\""),
+	("std.length(std.sort([error \"el\", error \"el\"], function(x) 0))", "2"),
+	("std.length(std.repeat([error \"el\"], 2))", "2"),
+	("std.length(std.removeAt([error \"el\", error \"el\"], 0))", "1"),
+	("std.length(std.slice([error \"el\", error \"el\"], 0, 1, 1))", "1"),
+	("std.length(std.flattenArrays([[error \"el\"], [error \"el\"]]))", "2"),
+	("std.length(std.join([error \"el\"], [[error \"el\"], [error \"el\"]]))", "3"),
+	("std.removeAt([1, 2, 3], -1)", "[1,2,3]"),
+	("std.removeAt([1, 2, 3], 3)", "[1,2,3]"),
+	("std.removeAt([1, 2, 3], 1)", "[1,3]"),
+	("std.remove([1, 2, 1], 1)", "[2,1]"),
+	("std.sort([[2, \"b\"], [1, \"a\"], [2, \"a\"], [1, \"b\"]], function(p) p[0])", "[[1,\"a\"],[1,\"b\"],[2,\"b\"],[2,\"a\"]]"),
+	("std.uniq([1, 1, 2, 1])", "[1,2,1]"),
+	("std.set([{k: 2, v: 1}, {k: 1, v: 2}, {k: 2, v: 3}], function(o) o.k)", "[{\"k\":1,\"v\":2},{\"k\":2,\"v\":1}]"),
+	("std.setUnion([{k: 1, v: \"a\"}], [{k: 1, v: \"b\"}], function(o) o.k)", "[{\"k\":1,\"v\":\"a\"}]"),
+	("std.setInter([{k: 1, v: \"a\"}], [{k: 1, v: \"b\"}], function(o) o.k)", "[{\"k\":1,\"v\":\"a\"}]"),
+	("std.setDiff([1, 2, 3, 4], [2])", "[1,3,4]"),
+	("std.join(\",\", [null, \"a\", null, \"b\", null])", "\"a,b\""),
+	("std.join(\",\", [\"\", \"a\"])", "\",a\""),
+	("std.join([0], [null, [1], [2]])", "[1,0,2]"),
+	("std.join(\",\", [\"a\", 1])", "ERROR"),
+	("std.lines([\"a\", \"b\"])", "\"a\\nb\\n\""),
+	("std.lines([])", "\"\""),
+	("std.deepJoin([[\"a\", [\"b\"]], \"c\"])", "\"abc\""),
+	("std.deepJoin([\"a\", 1])", "ERROR"),
+	("std.find(1, [1, 2, 1])", "[0,2]"),
+	("std.count([1, 2, 1], 1)", "2"),
+	("std.member(\"abc\", \"\")", "false"),
+	("std.flattenDeepArray([[1, [2, [3]]], 4])", "[1,2,3,4]"),
+	("std.flattenArrays([[1], [], [2, 3]])", "[1,2,3]"),
+	("std.avg([1, 2, 6])", "3"),
+	("std.avg([])", "ERROR"),
+	("std.sum([])", "0"),
+	("std.minArray([])", "ERROR"),
+	("std.maxArray([1, 3, 3, 2], function(x) -x)", "1"),
+	("std.maxArray([[1, \"a\"], [2, \"b\"], [2, \"c\"]], function(p) p[0])", "[2,\"b\"]"),
+	("std.minArray([[1, \"a\"], [1, \"b\"]], function(p) p[0])", "[1,\"a\"]"),
+	("std.any([false, true, error \"el\"])", "true"),
+	("std.all([])", "true"),
+	("std.range(1, 0)", "[]"),
+	("std.range(-1, 1)", "[-1,0,1]"),
+	("std.repeat(\"ab\", 0)", "\"\""),
+	("std.repeat([1], -1)", "ERROR"),
+	("std.makeArray(-1, function(i) i)", "ERROR"),
+	("std.slice(\"jsonnet\", -3, null, null)", "\"net\""),
+	("std.slice([1, 2, 3, 4, 5, 6], 1, 6, 2)", "[2,4,6]"),
+	("std.slice([1, 2, 3], 0, 2, 0)", "ERROR"),
+	("std.flatMap(function(x) [x, x], [1, 2])", "[1,1,2,2]"),
+	("std.flatMap(function(c) c + c, \"ab\")", "\"aabb\""),
+	("std.flatMap(function(x) 1, [1])", "ERROR"),
+	("std.filter(function(x) 1, [1])", "ERROR"),
+];
+
+fn seed_known(expr: &str, note: &str) -> Option<&'static str> {
+	if expr == "std.sum([])" {
+		Some("C10-sum-negative-zero")
+	} else if expr == "std.removeAt([1, 2, 3], -1)" {
+		Some("C10-removeat-negative-index")
+	} else if note.starts_with("STRICTNESS (an input element") {
+		Some("C10-eager-elements")
+	} else {
+		None
+	}
+}
+fn decide_seed(run: &Run, i: usize) -> CaseOut {
+	let (expr, want) = SEEDS[i];
+	let text = expr.to_owned();
+	let (man, _) = match observe(expr) {
+		Ok(x) => x,
+		Err(e) => return CaseOut::fail(text, format!("evaluation broke down: {e}")),
+	};
+	let ok = match (&man, want) {
+		(Err(_), "ERROR") => true,
+		(Ok(_), "ERROR") => false,
+		(Ok(got), w) => json::parse(w).map(|w| exact_same(got, &w)).unwrap_or(false),
+		(Err(_), _) => false,
+	};
+	if ok {
+		CaseOut::pass(text, true).class("seed")
+	} else {
+		let mut c = CaseOut::fail(text, format!("{}expected {want}, got {}", strictness_note(&man), show_obs(&man))).class("seed");
+		if let Some(id) = seed_known(expr, strictness_note(&man)) {
+			if listed(run, id) {
+				c.verdict = Verdict::Known(id.to_owned());
+			}
+		}
+		c
+	}
+}
+
+// ───────────────────────────── driver ─────────────────────────────
+
+fn tape_len(cfg: Cfg) -> std::ops::RangeInclusive<usize> {
+	if cfg.long {
+		12..=200
+	} else {
+		12..=90
+	}
+}
+
+pub fn run(run: &Run) {
+	run.set_rule("one case = one call of one of the 35 listed std functions with generated arguments: arrays of length 0..8 (thorough: up to 40) over {0,-0,1,2,-1,1.5,\"\",\"a\",\"b\",\"ab\",true,false,null,[],[1],[1,2],{k:1},{k:2}} (70% uniformly typed, 30% mixed, narrow alphabet windows force duplicates and ties), strings where the documentation accepts them (incl. non-ASCII), index/count arguments from -3 to len+3, key/predicate/fold functions from a pool of total, partial (error on the element 1), type-changing, non-boolean and wrong-arity functions, wrong argument types (1 in 16), default / positional / named keyF and onEmpty; set functions receive sets built by the reference set(). Expected result: Rust transcription of the std.jsonnet definition over lazy values; observed by full manifestation and by std.length alone. Stages `lazy:*` put `error \"el\"` elements into the inputs and prefer functions that ignore their argument. Stages rel:sort / rel:sets check jrsonnet's own outputs against model-free relations. Non-trivial: length >= 2 with a tie between keys, or a boundary index, or an argument error; distinct by call text.");
+	run.assume("the definitions in std.jsonnet of the documented release (0.21) are the meaning of the functions; negative index/end of std.slice count from the end; '<' orders numbers, strings (code points) and arrays (lexicographic) and fails on other or mixed types");
+	run.assume("not demanded (left open): string elements in flattenArrays/sum/avg and string results of flatMap functions over arrays (the definition concatenates text), null results of flatMap functions over strings, non-booleans after the deciding element of any/all, std.range(a, b) with b < a - 1, minArray/maxArray of a single element of an unordered type, sorting when only some key pairs are incomparable, strings passed to map/mapWithIndex/contains/sort/uniq, fractional sizes and indexes, std.avg(onEmpty=)");
+	if std::env::var_os("VERIF_C10_SELFTEST").is_some() {
+		selftest(run);
+		return;
+	}
+	let thorough = run.tier == Tier::Thorough;
+	run.enumerate("seeds", SEEDS.len() as u64, |i| decide_seed(run, i as usize));
+	let cfg = Cfg { long: thorough, lazy: false };
+	let n = run.tier.pick(5_000, 150_000);
+	for (name, g) in FNS {
+		run.explore(name, n, tape_len(cfg), |src| decide(run, &g(src, cfg)));
+	}
+	let lcfg = Cfg { long: thorough, lazy: true };
+	let n = run.tier.pick(1_500, 45_000);
+	for (name, g) in FNS {
+		run.explore(&format!("lazy:{name}"), n, tape_len(lcfg), |src| decide(run, &g(src, lcfg)));
+	}
+	let n = run.tier.pick(12_000, 360_000);
+	run.explore("rel:sort", n, tape_len(cfg), |src| rel_sort(run, src, cfg));
+	run.explore("rel:sets", n, tape_len(cfg), |src| rel_sets(src, cfg));
+	// arrays of up to 40 elements leave the small-slice code paths of sorting routines: a short look in every tier
+	let big = Cfg { long: true, lazy: false };
+	let n = run.tier.pick(2_000, 20_000);
+	for name in LONG_STAGES {
+		let g = FNS.iter().find(|f| f.0 == *name).unwrap().1;
+		run.explore(&format!("long:{name}"), n, tape_len(big), |src| decide(run, &g(src, big)));
+	}
+	run.explore("long:rel:sort", n, tape_len(big), |src| rel_sort(run, src, big));
+	for (name, _) in FNS {
+		run.require_class(&format!("fn:{name}"), 100);
+	}
+	run.require_class("rel:sort", 100);
+	run.require_class("rel:sets", 100);
+	run.require_class("expect:error", 300);
+}
+const LONG_STAGES: &[&str] = &["sort", "set", "uniq", "setUnion", "setInter", "setDiff", "setMember", "minArray", "maxArray"];
+
+pub fn replay(run: &Run, stage: &str, tape: Option<&[u16]>, v: &Value) -> Option<CaseOut> {
+	let mut long = v["tier"].as_str() == Some("thorough");
+	if stage == "seeds" {
+		let i = v["extra"]["index"].as_u64()? as usize;
+		return (i < SEEDS.len()).then(|| decide_seed(run, i));
+	}
+	let tape = tape?;
+	let mut src = Src::new(tape);
+	let mut stage = stage;
+	if let Some(rest) = stage.strip_prefix("long:") {
+		long = true;
+		stage = rest;
+	}
+	let cfg = Cfg { long, lazy: false };
+	match stage {
+		"rel:sort" => return Some(rel_sort(run, &mut src, cfg)),
+		"rel:sets" => return Some(rel_sets(&mut src, cfg)),
+		_ => {}
+	}
+	let (name, lazy) = match stage.strip_prefix("lazy:") {
+		Some(n) => (n, true),
+		None => (stage, false),
+	};
+	let g = FNS.iter().find(|f| f.0 == name)?.1;
+	Some(decide(run, &g(&mut src, Cfg { long, lazy })))
+}
+
+// ───────────────────────────── self-test of the oracle ─────────────────────────────
+
+thread_local! {
+	/// (function name, Jsonnet definition of a deliberately wrong replacement); only set by `selftest`
+	static MUTANT: std::cell::RefCell<Option<(&'static str, &'static str)>> = const { std::cell::RefCell::new(None) };
+}
+fn mutate(expr: &str) -> String {
+	MUTANT.with(|m| match &*m.borrow() {
+		None => expr.to_owned(),
+		Some((name, def)) => format!("(local mut = {{ {def} }}; {})", expr.replace(&format!("std.{name}("), &format!("mut.{name}("))),
+	})
+}
+
+/// wrong implementations written in Jsonnet; each must be caught by the stage of its function
+const MUTANTS: &[(&str, &str, &str)] = &[
+	("sort", "sort", "sort(arr, keyF=function(x) x):: std.reverse(std.sort(std.reverse(arr), keyF))"),
+	("rel:sort", "sort", "sort(arr, keyF=function(x) x):: std.reverse(std.sort(std.reverse(arr), keyF))"),
+	("uniq", "uniq", "uniq(arr, keyF=function(x) x):: std.foldl(function(acc, x) if std.length([1 for y in acc if keyF(y) == keyF(x)]) > 0 then acc else acc + [x], arr, [])"),
+	("set", "set", "set(arr, keyF=function(x) x):: std.uniq(std.sort(arr, keyF))"),
+	("setUnion", "setUnion", "setUnion(a, b, keyF=function(x) x):: std.setUnion(b, a, keyF)"),
+	("setInter", "setInter", "setInter(a, b, keyF=function(x) x):: std.setInter(b, a, keyF)"),
+	("setDiff", "setDiff", "setDiff(a, b, keyF=function(x) x):: local d = std.setDiff(a, b, keyF); if std.length(b) > 0 then [x for x in d if keyF(x) <= keyF(b[std.length(b) - 1])] else d"),
+	("rel:sets", "setDiff", "setDiff(a, b, keyF=function(x) x):: local d = std.setDiff(a, b, keyF); if std.length(b) > 0 then [x for x in d if keyF(x) <= keyF(b[std.length(b) - 1])] else d"),
+	("rel:sets", "setInter", "setInter(a, b, keyF=function(x) x):: local r = std.setInter(a, b, keyF); r[1:]"),
+	("rel:sets", "setUnion", "setUnion(a, b, keyF=function(x) x):: if std.length(a) == 0 then b else if std.length(b) == 0 then a else std.setUnion(a, b[:std.length(b) - 1], keyF)"),
+	("setMember", "setMember", "setMember(x, arr, keyF=function(x) x):: std.length(arr) > 0 && std.setMember(x, arr[1:], keyF)"),
+	("member", "member", "member(arr, x):: if std.isArray(arr) then std.member(arr[1:], x) else std.member(arr, x)"),
+	("contains", "contains", "contains(arr, x):: std.contains(arr[:std.length(arr) - 1], x)"),
+	("find", "find", "find(v, arr):: [arr[i] for i in std.find(v, arr)]"),
+	("count", "count", "count(arr, x):: if std.member(arr, x) then 1 else 0"),
+	("remove", "remove", "remove(arr, x):: [e for e in arr if e != x]"),
+	("removeAt", "removeAt", "removeAt(arr, at):: if at == std.length(arr) - 1 then arr else std.removeAt(arr, at)"),
+	("flattenArrays", "flattenArrays", "flattenArrays(arrs):: std.flattenArrays(std.reverse(arrs))"),
+	("flattenDeepArray", "flattenDeepArray", "flattenDeepArray(v):: if std.isArray(v) then std.flattenArrays([if std.isArray(x) then x else [x] for x in v]) else [v]"),
+	("foldl", "foldl", "foldl(f, arr, init):: std.foldr(function(a, b) f(b, a), arr, init)"),
+	("foldr", "foldr", "foldr(f, arr, init):: std.foldl(function(a, b) f(b, a), arr, init)"),
+	("map", "map", "map(f, arr):: std.reverse(std.map(f, std.reverse(arr)))[:std.length(arr) - 1] + [f(arr[0])][:std.length(arr)]"),
+	("mapWithIndex", "mapWithIndex", "mapWithIndex(f, arr):: std.mapWithIndex(function(i, x) f(i + 1, x), arr)"),
+	("filter", "filter", "filter(f, arr):: std.filter(function(x) !f(x), arr)"),
+	("filterMap", "filterMap", "filterMap(ff, mf, arr):: std.filter(ff, std.map(mf, arr))"),
+	("flatMap", "flatMap", "flatMap(f, arr):: if std.isString(arr) then std.flatMap(f, arr) else std.flattenArrays(std.reverse(std.map(f, arr)))"),
+	("join", "join", "join(sep, arr):: local r = std.join(sep, arr); if std.length(arr) > 0 && arr[0] == null && std.length(r) > 0 then sep + r else r"),
+	("lines", "lines", "lines(arr):: std.join(\"\\n\", arr)"),
+	("deepJoin", "deepJoin", "deepJoin(x):: if std.isArray(x) then std.join(\"\", [std.deepJoin(e) for e in std.reverse(x)]) else std.deepJoin(x)"),
+	("any", "any", "any(arr):: std.any(arr[1:])"),
+	("all", "all", "all(arr):: std.all(arr[:std.length(arr) - 1])"),
+	("sum", "sum", "sum(arr):: std.sum(arr[1:])"),
+	("avg", "avg", "avg(arr):: std.sum(arr) / (std.length(arr) - 1)"),
+	("minArray", "minArray", "minArray(arr, keyF=function(x) x, onEmpty=error \"none\"):: if std.length(arr) == 0 then onEmpty else std.minArray(std.reverse(arr), keyF)"),
+	("maxArray", "maxArray", "maxArray(arr, keyF=function(x) x, onEmpty=error \"none\"):: if std.length(arr) == 0 then onEmpty else std.maxArray(std.reverse(arr), keyF)"),
+	("range", "range", "range(a, b):: std.range(a, b - 1)"),
+	("repeat", "repeat", "repeat(w, n):: std.repeat(w, if n > 1 then n - 1 else n)"),
+	("slice", "slice", "slice(a, i, e, s):: std.slice(a, i, if e == null || e < 0 then e else e + 1, s)"),
+	("makeArray", "makeArray", "makeArray(n, f):: std.makeArray(n, function(i) f(n - 1 - i))"),
+];
+
+/// `VERIF_C10_SELFTEST=1 jv run C10 quick`: every mutant must turn a passing case of its stage into a failing one
+fn selftest(run: &Run) {
+	let cfg = Cfg { long: false, lazy: false };
+	let mut state = 0x2545f4914f6cdd1du64;
+	for (stage, name, def) in MUTANTS {
+		let mut killed_after = None;
+		for i in 0..4000u32 {
+			let tape: Vec<u16> = (0..90)
+				.map(|_| {
+					state ^= state << 13;
+					state ^= state >> 7;
+					state ^= state << 17;
+					(state >> 24) as u16
+				})
+				.collect();
+			let go = |mutant: bool| -> CaseOut {
+				MUTANT.with(|m| *m.borrow_mut() = if mutant { Some((*name, *def)) } else { None });
+				let mut src = Src::new(&tape);
+				let out = match *stage {
+					"rel:sort" => rel_sort(run, &mut src, cfg),
+					"rel:sets" => rel_sets(&mut src, cfg),
+					s => {
+						let g = FNS.iter().find(|f| f.0 == s).unwrap().1;
+						decide(run, &g(&mut src, cfg))
+					}
+				};
+				MUTANT.with(|m| *m.borrow_mut() = None);
+				out
+			};
+			if !matches!(go(false).verdict, Verdict::Pass) {
+				continue;
+			}
+			let out = go(true);
+			if matches!(out.verdict, Verdict::Fail(_) | Verdict::Known(_)) {
+				run.record("selftest", &CaseOut::pass(format!("{stage}/{name}: {}", out.text), true).class("selftest:killed"));
+				killed_after = Some(i + 1);
+				break;
+			}
+		}
+		match killed_after {
+			Some(n) => run.note(format!("selftest: mutant of std.{name} caught by stage {stage} after {n} cases")),
+			None => run.infra(format!("selftest: mutant of std.{name} NOT caught by stage {stage}: {def}")),
+		}
+	}
 }
